@@ -322,3 +322,1399 @@ Proof.
       * intros (y & Hy & Hky). apply nth_error_app_last in Hy.
         destruct Hy as [Hy|[Hi Hy]]; [eauto | subst; contradiction].
 Qed.
+
+(* ---------- removing an id from its bucket, then appending it to the bucket of a new name ---------- *)
+(* core of ncmpio_update_name_lookup_table and ncmpio_hash_replace *)
+Lemma rename_buckets_inv : forall names hs bs i old new ids ids',
+  0 < hs -> bs_inv names hs bs -> nth_error names i = Some old ->
+  nth_error bs (key old hs) = Some ids -> remove_id i ids = Some ids' ->
+  exists ids2, nth_error (set_nth (key old hs) bs ids') (key new hs) = Some ids2 /\
+    bs_inv (set_nth i names new) hs
+           (set_nth (key new hs) (set_nth (key old hs) bs ids') (ids2 ++ [i])).
+Proof.
+  intros names hs bs i old new ids ids' Hhs [Hlen Hb] Hi Hids Hrm.
+  destruct (Hb _ _ Hids) as [Hnd Hiff].
+  assert (Hin : In i ids) by (apply Hiff; eauto).
+  destruct (remove_id_in i ids Hnd Hin) as (ids'' & Hrm' & Hnd' & Hiff').
+  rewrite Hrm in Hrm'. inversion Hrm'; subst ids''. clear Hrm'.
+  assert (Hko : (key old hs < length bs)%nat) by (rewrite Hlen; apply key_lt; assumption).
+  assert (Hkn : (key new hs < length bs)%nat) by (rewrite Hlen; apply key_lt; assumption).
+  assert (Hil : (i < length names)%nat) by (eapply nth_error_some_lt; eauto).
+  set (bs1 := set_nth (key old hs) bs ids').
+  destruct (nth_error_lt_some _ bs1 (key new hs)) as [ids2 Hids2].
+  { unfold bs1. rewrite set_nth_length. assumption. }
+  exists ids2. split; [assumption|].
+  (* characterisation of bs1 *)
+  assert (Hb1 : forall k l, nth_error bs1 k = Some l ->
+            NoDup l /\ forall j, In j l <-> (j <> i /\ exists nm, nth_error names j = Some nm /\ key nm hs = k)).
+  { intros k l Hk. unfold bs1 in Hk.
+    destruct (Nat.eq_dec (key old hs) k) as [E|E].
+    - subst k. rewrite nth_error_set_nth_eq in Hk by assumption. inversion Hk; subst l.
+      split; [assumption|]. intro j. rewrite Hiff', Hiff. tauto.
+    - rewrite nth_error_set_nth_neq in Hk by assumption.
+      destruct (Hb _ _ Hk) as [Hnd2 Hiff2]. split; [assumption|].
+      intro j. rewrite Hiff2. split.
+      + intros (nm & Hnm & Hk2). split; [|eauto]. intro; subst j. rewrite Hi in Hnm. inversion Hnm; subst. contradiction.
+      + tauto. }
+  split.
+  - unfold bs1. rewrite !set_nth_length. assumption.
+  - intros k l Hk.
+    assert (Hnames : forall j y, nth_error (set_nth i names new) j = Some y <->
+                     ((j = i /\ y = new) \/ (j <> i /\ nth_error names j = Some y))).
+    { intros j y. destruct (Nat.eq_dec i j) as [E|E].
+      - subst j. rewrite nth_error_set_nth_eq by assumption. split.
+        + intro H. inversion H. auto.
+        + intros [[_ H]|[H _]]; [subst; reflexivity | contradiction].
+      - rewrite nth_error_set_nth_neq by assumption. split; [auto|].
+        intros [[H _]|[_ H]]; [congruence | assumption]. }
+    destruct (Nat.eq_dec (key new hs) k) as [E|E].
+    + subst k. rewrite nth_error_set_nth_eq in Hk by (unfold bs1; rewrite set_nth_length; assumption).
+      inversion Hk; subst l. destruct (Hb1 _ _ Hids2) as [Hnd2 Hiff2]. split.
+      * apply NoDup_app_intro; [assumption | constructor; [intros []|constructor] |].
+        intros x Hx [Hx2|[]]. subst x. apply Hiff2 in Hx. tauto.
+      * intro j. rewrite in_app_iff. simpl. rewrite Hiff2. split.
+        -- intros [(Hne & nm & Hnm & Hk2)|[Hj|[]]].
+           ++ exists nm. split; [apply Hnames; auto | assumption].
+           ++ subst j. exists new. split; [apply Hnames; auto | reflexivity].
+        -- intros (y & Hy & Hk2). apply Hnames in Hy. destruct Hy as [[Hj Hy]|[Hj Hy]].
+           ++ right. left. auto.
+           ++ left. split; eauto.
+    + rewrite nth_error_set_nth_neq in Hk by assumption.
+      destruct (Hb1 _ _ Hk) as [Hnd2 Hiff2]. split; [assumption|].
+      intro j. rewrite Hiff2. split.
+      * intros (Hne & nm & Hnm & Hk2). exists nm. split; [apply Hnames; auto | assumption].
+      * intros (y & Hy & Hk2). apply Hnames in Hy. destruct Hy as [[Hj Hy]|[Hj Hy]].
+        -- subst. contradiction.
+        -- split; eauto.
+Qed.
+
+Theorem hash_update_inv : forall names t i old new,
+  tab_inv names t -> nth_error names i = Some old ->
+  exists t', hash_update hashf t i old new = Some t' /\ tab_inv (set_nth i names new) t' /\
+             nt_hsize t' = nt_hsize t.
+Proof.
+  intros names t i old new [Hhs Hinv] Hi. unfold hash_update.
+  destruct (nt_tab t) as [bs|] eqn:Hbs; [|subst; destruct i; discriminate].
+  pose proof Hinv as [Hlen Hb].
+  destruct (bucket_ok bs old _ Hhs Hlen) as (ids & Hids & Hbk). rewrite Hbk.
+  destruct (Hb _ _ Hids) as [Hnd Hiff].
+  assert (Hin : In i ids) by (apply Hiff; eauto).
+  destruct (remove_id_in i ids Hnd Hin) as (ids' & Hrm & _ & _). rewrite Hrm.
+  destruct (rename_buckets_inv names _ bs i old new ids ids' Hhs Hinv Hi Hids Hrm) as (ids2 & Hids2 & Hinv2).
+  destruct (bucket_ok (set_nth (key old (nt_hsize t)) bs ids') new _ Hhs) as (ids3 & Hids3 & Hbk3).
+  { rewrite set_nth_length. assumption. }
+  rewrite Hbk3. rewrite Hids2 in Hids3. inversion Hids3; subst ids3.
+  eexists. split; [reflexivity|]. split; [|reflexivity]. split; assumption.
+Qed.
+
+Theorem hash_replace_inv : forall names t i old new,
+  tab_inv names t -> nth_error names i = Some old ->
+  exists t', hash_replace hashf t i old new = Some t' /\ tab_inv (set_nth i names new) t' /\
+             nt_hsize t' = nt_hsize t.
+Proof.
+  intros names t i old new [Hhs Hinv] Hi. unfold hash_replace.
+  destruct (nt_tab t) as [bs|] eqn:Hbs; [|subst; destruct i; discriminate].
+  pose proof Hinv as [Hlen Hb].
+  destruct (bucket_ok bs old _ Hhs Hlen) as (ids & Hids & Hbk). rewrite Hbk.
+  destruct (Hb _ _ Hids) as [Hnd Hiff].
+  assert (Hin : In i ids) by (apply Hiff; eauto).
+  destruct (remove_id_in i ids Hnd Hin) as (ids' & Hrm & _ & _). rewrite Hrm.
+  destruct (rename_buckets_inv names _ bs i old new ids ids' Hhs Hinv Hi Hids Hrm) as (ids2 & Hids2 & Hinv2).
+  destruct (bucket_ok (set_nth (key old (nt_hsize t)) bs ids') new _ Hhs) as (ids3 & Hids3 & Hbk3).
+  { rewrite set_nth_length. assumption. }
+  rewrite Hbk3. rewrite Hids2 in Hids3. inversion Hids3; subst ids3.
+  eexists. split; [reflexivity|]. split; [|reflexivity]. split; assumption.
+Qed.
+
+(* ---------- hash_delete with renumbering ---------- *)
+Definition dec_above (id j : nat) : nat := if Nat.ltb id j then pred j else j.
+
+Lemma in_map_dec : forall id ids j, ~ In id ids ->
+  (In j (map (dec_above id) ids) <-> In (if Nat.ltb j id then j else S j) ids).
+Proof.
+  intros id ids j Hni. rewrite in_map_iff. unfold dec_above. split.
+  - intros (x & Hx & Hin).
+    assert (x <> id) by (intro; subst; contradiction).
+    destruct (Nat.ltb id x) eqn:E1.
+    + apply Nat.ltb_lt in E1. subst j. destruct (Nat.ltb (pred x) id) eqn:E2.
+      * apply Nat.ltb_lt in E2. lia.
+      * replace (S (pred x)) with x by lia. assumption.
+    + apply Nat.ltb_ge in E1. subst j. destruct (Nat.ltb x id) eqn:E2; [assumption|].
+      apply Nat.ltb_ge in E2. lia.
+  - intro Hin. destruct (Nat.ltb j id) eqn:E.
+    + apply Nat.ltb_lt in E. exists j. split; [|assumption].
+      destruct (Nat.ltb id j) eqn:E2; [apply Nat.ltb_lt in E2; lia | reflexivity].
+    + apply Nat.ltb_ge in E. exists (S j). split; [|assumption].
+      destruct (Nat.ltb id (S j)) eqn:E2; [reflexivity | apply Nat.ltb_ge in E2; lia].
+Qed.
+
+Lemma NoDup_map_dec : forall id ids, NoDup ids -> ~ In id ids -> NoDup (map (dec_above id) ids).
+Proof.
+  intros id ids Hnd Hni. apply NoDup_map_inj_In; [|assumption].
+  intros x y Hx Hy. unfold dec_above.
+  assert (x <> id) by (intro; subst; contradiction).
+  assert (y <> id) by (intro; subst; contradiction).
+  destruct (Nat.ltb id x) eqn:E1; destruct (Nat.ltb id y) eqn:E2;
+    try apply Nat.ltb_lt in E1; try apply Nat.ltb_lt in E2;
+    try apply Nat.ltb_ge in E1; try apply Nat.ltb_ge in E2; lia.
+Qed.
+
+Theorem hash_delete_inv : forall names t i nm,
+  tab_inv names t -> nth_error names i = Some nm ->
+  exists t', hash_delete hashf t nm i = Some (Some t') /\ tab_inv (del_nth i names) t' /\
+             nt_hsize t' = nt_hsize t.
+Proof.
+  intros names t i nm [Hhs Hinv] Hi. unfold hash_delete.
+  destruct (nt_tab t) as [bs|] eqn:Hbs; [|subst; destruct i; discriminate].
+  pose proof Hinv as [Hlen Hb].
+  destruct (bucket_ok bs nm _ Hhs Hlen) as (ids & Hids & Hbk). rewrite Hbk.
+  destruct (Hb _ _ Hids) as [Hnd Hiff].
+  assert (Hin : In i ids) by (apply Hiff; eauto).
+  destruct (remove_id_in i ids Hnd Hin) as (ids' & Hrm & Hnd' & Hiff'). rewrite Hrm.
+  eexists. split; [reflexivity|]. split; [|reflexivity].
+  split; [assumption|]. simpl.
+  assert (Hko : (key nm (nt_hsize t) < length bs)%nat) by (rewrite Hlen; apply key_lt; assumption).
+  assert (Hil : (i < length names)%nat) by (eapply nth_error_some_lt; eauto).
+  split.
+  - unfold renumber. rewrite map_length, set_nth_length. assumption.
+  - intros k l Hk. unfold renumber in Hk. rewrite nth_error_map in Hk.
+    destruct (nth_error (set_nth (key nm (nt_hsize t)) bs ids') k) as [l0|] eqn:Hl0; [|discriminate].
+    simpl in Hk. inversion Hk; subst l. clear Hk.
+    (* l0 holds exactly the ids <> i whose name hashes to k *)
+    assert (Hl0' : NoDup l0 /\ forall j, In j l0 <->
+              (j <> i /\ exists y, nth_error names j = Some y /\ key y (nt_hsize t) = k)).
+    { destruct (Nat.eq_dec (key nm (nt_hsize t)) k) as [E|E].
+      - subst k. rewrite nth_error_set_nth_eq in Hl0 by assumption. inversion Hl0; subst l0.
+        split; [assumption|]. intro j. rewrite Hiff', Hiff. tauto.
+      - rewrite nth_error_set_nth_neq in Hl0 by assumption.
+        destruct (Hb _ _ Hl0) as [Hnd2 Hiff2]. split; [assumption|].
+        intro j. rewrite Hiff2. split; [|tauto].
+        intros (y & Hy & Hk2). split; [|eauto]. intro; subst j. rewrite Hi in Hy. inversion Hy; subst. contradiction. }
+    destruct Hl0' as [Hnd0 Hiff0].
+    assert (Hni : ~ In i l0) by (intro Hx; apply Hiff0 in Hx; tauto).
+    change (fun j : nat => if (i <? j)%nat then Nat.pred j else j) with (dec_above i).
+    split; [apply NoDup_map_dec; assumption|].
+    intro j. rewrite in_map_dec by assumption. rewrite Hiff0.
+    destruct (Nat.ltb j i) eqn:E.
+    + apply Nat.ltb_lt in E. rewrite nth_error_del_nth_lt by assumption. split.
+      * intros (_ & y & Hy & Hk2). eauto.
+      * intros (y & Hy & Hk2). split; [lia | eauto].
+    + apply Nat.ltb_ge in E. rewrite nth_error_del_nth_ge by assumption. split.
+      * intros (_ & y & Hy & Hk2). eauto.
+      * intros (y & Hy & Hk2). split; [lia | eauto].
+Qed.
+
+(* ---------- populate (open) ---------- *)
+Lemma populate_from_inv : forall names2 names1 t,
+  tab_inv names1 t -> (exists bs, nt_tab t = Some bs) ->
+  exists t', populate_from hashf t names2 (length names1) = Some t' /\ tab_inv (names1 ++ names2) t' /\
+             nt_hsize t' = nt_hsize t.
+Proof.
+  induction names2 as [|nm names2 IH]; intros names1 t Hinv Hal; simpl.
+  - exists t. rewrite app_nil_r. auto.
+  - destruct (hash_insert_inv names1 t nm Hinv Hal) as (t1 & Hins & Hinv1 & Hhs1). rewrite Hins.
+    assert (Hal1 : exists bs, nt_tab t1 = Some bs).
+    { unfold hash_insert in Hins. destruct Hal as [bs Hbs]. rewrite Hbs in Hins.
+      destruct (bucket hashf bs nm (nt_hsize t)) as [[k ids]|]; [|discriminate].
+      inversion Hins. simpl. eauto. }
+    destruct (IH (names1 ++ [nm]) t1 Hinv1 Hal1) as (t' & Hp & Hinv' & Hhs').
+    rewrite app_length in Hp. simpl in Hp. replace (length names1 + 1)%nat with (S (length names1)) in Hp by lia.
+    exists t'. rewrite <- app_assoc in Hinv'. simpl in Hinv'. split; [assumption|]. split; [assumption|]. congruence.
+Qed.
+
+Theorem hash_populate_inv : forall hs names, 0 < hs ->
+  exists t, hash_populate hashf hs names = Some t /\ tab_inv names t /\ nt_hsize t = hs.
+Proof.
+  intros hs names Hhs. unfold hash_populate. destruct names as [|n0 names'].
+  - eexists. split; [reflexivity|]. split; [|reflexivity]. split; simpl; auto.
+  - assert (H0 : tab_inv [] (mkntab hs None)) by (split; simpl; auto).
+    destruct (tab_calloc_inv [] _ H0) as (Hinv & Hhs' & Hal).
+    destruct (populate_from_inv (n0 :: names') [] _ Hinv Hal) as (t' & Hp & Hinv' & Hhs'').
+    simpl in Hp. exists t'. split; [assumption|]. split; [assumption|].
+    rewrite Hhs'', Hhs'. reflexivity.
+Qed.
+
+(* ---------- table copy at redef ---------- *)
+Theorem hash_dup_inv : forall names t, tab_inv names t ->
+  exists t', hash_dup (nt_hsize t) (length names) t = Some t' /\ tab_inv names t' /\
+             nt_hsize t' = nt_hsize t.
+Proof.
+  intros names t [Hhs Hinv]. unfold hash_dup.
+  destruct names as [|n0 names']; simpl.
+  - eexists. split; [reflexivity|]. split; [|reflexivity]. split; simpl; auto.
+  - destruct (nt_tab t) as [bs|]; [|discriminate].
+    destruct Hinv as [Hlen Hb]. rewrite Hlen, Nat.leb_refl.
+    eexists. split; [reflexivity|]. split; [|reflexivity]. split; [assumption|]. simpl.
+    rewrite <- Hlen, firstn_all. split; assumption.
+Qed.
+
+End Tables.
+
+(* ================================================================== *)
+(** * Part 3: attribute arrays and one open file *)
+
+Lemma NoDup_set_nth_new : forall (l : list (list byte)) i x, NoDup l -> ~ In x l -> NoDup (set_nth i l x).
+Proof.
+  induction l as [|y l IH]; intros i x Hnd Hni; simpl; [destruct i; constructor|].
+  inversion Hnd; subst. destruct i.
+  - constructor; [|assumption]. intro; apply Hni; right; assumption.
+  - constructor.
+    + intro Hin. assert (Hsub : forall z, In z (set_nth i l x) -> z = x \/ In z l).
+      { clear. revert i. induction l as [|a l IH]; intros i z; simpl; [destruct i; intros []|].
+        destruct i; simpl; intros [H|H]; auto. apply IH in H. tauto. }
+      apply Hsub in Hin. destruct Hin as [Hin|Hin]; [subst; apply Hni; left; reflexivity | contradiction].
+    + apply IH; [assumption|]. intro; apply Hni; right; assumption.
+Qed.
+
+Lemma In_del_nth : forall A (l : list A) i z, In z (del_nth i l) -> In z l.
+Proof.
+  induction l as [|a l IH]; intros i z; simpl; [destruct i; intros []|].
+  destruct i; simpl; [auto|]. intros [H|H]; auto. right. eapply IH; eauto.
+Qed.
+
+Lemma NoDup_del_nth : forall A (l : list A) i, NoDup l -> NoDup (del_nth i l).
+Proof.
+  induction l as [|a l IH]; intros i Hnd; simpl; [destruct i; constructor|].
+  inversion Hnd; subst. destruct i; [assumption|].
+  constructor; [|apply IH; assumption]. intro H. apply In_del_nth in H. contradiction.
+Qed.
+
+Lemma NoDup_snoc_new : forall A (l : list A) x, NoDup l -> ~ In x l -> NoDup (l ++ [x]).
+Proof.
+  intros. apply NoDup_app_intro; [assumption | constructor; [intros []|constructor] |].
+  intros y Hy [E|[]]. subst. contradiction.
+Qed.
+
+Section Refine.
+Variable hashf : list byte -> Z -> Z.
+Variable nfc : list byte -> list byte.
+Hypothesis hash_range : forall nm hs, 0 < hs -> 0 <= hashf nm hs < hs.
+
+Notation tinv := (tab_inv hashf).
+
+Definition ca_inv (ca : cattrs) : Prop := tinv (ca_names ca) (ca_tab ca) /\ NoDup (ca_names ca).
+
+Lemma ca_find_linear : forall ca nm, ca_inv ca ->
+  ca_find hashf ca nm = Some (find_name nm (map a_name (ca_vals ca))).
+Proof. intros ca nm [H1 H2]. unfold ca_find. apply hfind_linear; assumption. Qed.
+
+Lemma find_name_att : forall nm (l : list att) i, find_name nm (map a_name l) = Some i ->
+  exists a, nth_error l i = Some a /\ a_name a = nm /\ nth i l dflt_att = a.
+Proof.
+  intros nm l i H. apply find_name_some in H. destruct H as [H _].
+  rewrite nth_error_map in H. destruct (nth_error l i) as [a|] eqn:E; [|discriminate].
+  simpl in H. inversion H. exists a. split; [reflexivity|]. split; [reflexivity|].
+  eapply nth_error_nth_d; eauto.
+Qed.
+
+Lemma c_attr_put_ref : forall indef ca nn t n data, ca_inv ca ->
+  exists ca', c_attr_put hashf indef ca nn t n data =
+                Some (ca', snd (s_attr_put indef (ca_vals ca) nn t n data)) /\
+              ca_vals ca' = fst (s_attr_put indef (ca_vals ca) nn t n data) /\
+              ca_inv ca' /\ nt_hsize (ca_tab ca') = nt_hsize (ca_tab ca).
+Proof.
+  intros indef ca nn t n data Hinv. unfold c_attr_put, s_attr_put.
+  rewrite (ca_find_linear ca nn Hinv).
+  destruct (find_name nn (map a_name (ca_vals ca))) as [i|] eqn:F.
+  - destruct (find_name_att _ _ _ F) as (a & Ha & Hn & Hd). rewrite Hd.
+    destruct (negb indef && (x_len_attrV t n >? att_xsz a)).
+    + exists ca. simpl. auto.
+    + eexists. split; [reflexivity|]. simpl. split; [reflexivity|].
+      assert (Hnames : map a_name (set_nth i (ca_vals ca) (mkatt (a_name a) t n data)) = ca_names ca).
+      { rewrite map_set_nth. simpl. apply set_nth_same. unfold ca_names.
+        rewrite nth_error_map, Ha. reflexivity. }
+      split; [|reflexivity]. unfold ca_inv, ca_names in *. simpl. rewrite Hnames. assumption.
+  - destruct (negb indef); [exists ca; simpl; auto|]. simpl.
+    destruct (Zlen (ca_vals ca) =? NC_MAX_INT); [exists ca; simpl; auto|].
+    destruct Hinv as [Ht Hnd].
+    destruct (tab_calloc_inv hashf _ _ Ht) as (Ht1 & Hhs1 & Hal).
+    destruct (hash_insert_inv hashf hash_range _ _ nn Ht1 Hal) as (t' & Hins & Ht' & Hhs').
+    unfold ca_names in Hins. rewrite map_length in Hins. rewrite Hins.
+    eexists. split; [reflexivity|]. simpl. split; [reflexivity|]. split.
+    + unfold ca_inv, ca_names. simpl. rewrite map_app. simpl. split; [assumption|].
+      apply NoDup_snoc_new; [assumption|]. apply find_name_none. assumption.
+    + simpl. congruence.
+Qed.
+
+Lemma c_attr_rename_ref : forall indef ca nn nnew, ca_inv ca ->
+  exists ca', c_attr_rename hashf indef ca nn nnew =
+                Some (ca', snd (s_attr_rename indef (ca_vals ca) nn nnew)) /\
+              ca_vals ca' = fst (s_attr_rename indef (ca_vals ca) nn nnew) /\
+              ca_inv ca' /\ nt_hsize (ca_tab ca') = nt_hsize (ca_tab ca).
+Proof.
+  intros indef ca nn nnew Hinv. unfold c_attr_rename, s_attr_rename.
+  rewrite (ca_find_linear ca nn Hinv).
+  destruct (find_name nn (map a_name (ca_vals ca))) as [i|] eqn:F; [|exists ca; simpl; auto].
+  rewrite (ca_find_linear ca nnew Hinv).
+  destruct (find_name nnew (map a_name (ca_vals ca))) as [j|] eqn:F2; [exists ca; simpl; auto|].
+  destruct (find_name_att _ _ _ F) as (a & Ha & Hn & Hd). rewrite Hd.
+  destruct (negb indef && (Zlen (a_name a) <? Zlen nnew)); [exists ca; simpl; auto|].
+  destruct Hinv as [Ht Hnd].
+  assert (Hi : nth_error (ca_names ca) i = Some (a_name a)).
+  { unfold ca_names. rewrite nth_error_map, Ha. reflexivity. }
+  destruct (hash_replace_inv hashf hash_range _ _ i (a_name a) nnew Ht Hi) as (t' & Hr & Ht' & Hhs').
+  rewrite Hr. eexists. split; [reflexivity|]. simpl. split; [reflexivity|]. split; [|assumption].
+  unfold ca_inv, ca_names. simpl. rewrite map_set_nth. simpl. split; [assumption|].
+  apply NoDup_set_nth_new; [assumption|]. apply find_name_none. assumption.
+Qed.
+
+Lemma c_attr_del_ref : forall ca nn, ca_inv ca ->
+  exists ca', c_attr_del hashf ca nn = Some (ca', snd (s_attr_del (ca_vals ca) nn)) /\
+              ca_vals ca' = fst (s_attr_del (ca_vals ca) nn) /\
+              ca_inv ca' /\ nt_hsize (ca_tab ca') = nt_hsize (ca_tab ca).
+Proof.
+  intros ca nn Hinv. unfold c_attr_del, s_attr_del.
+  rewrite (ca_find_linear ca nn Hinv).
+  destruct (find_name nn (map a_name (ca_vals ca))) as [i|] eqn:F; [|exists ca; simpl; auto].
+  destruct (find_name_att _ _ _ F) as (a & Ha & Hn & Hd).
+  destruct Hinv as [Ht Hnd].
+  assert (Hi : nth_error (ca_names ca) i = Some nn).
+  { unfold ca_names. rewrite nth_error_map, Ha. simpl. congruence. }
+  destruct (hash_delete_inv hashf hash_range _ _ i nn Ht Hi) as (t' & Hr & Ht' & Hhs').
+  rewrite Hr. eexists. split; [reflexivity|]. simpl. split; [reflexivity|]. split; [|assumption].
+  unfold ca_inv, ca_names. simpl. rewrite map_del_nth. split; [assumption|].
+  apply NoDup_del_nth. assumption.
+Qed.
+
+(* ---------- one open file ---------- *)
+Definition cv_inv (hs : Z) (v : cvar) : Prop :=
+  ca_inv (cv_atts v) /\ nt_hsize (ca_tab (cv_atts v)) = hs.
+
+Definition meta_inv (hs : Z) (m : cmeta) : Prop :=
+  tinv (dnames m) (cm_dtab m) /\ NoDup (dnames m) /\
+  tinv (vnames m) (cm_vtab m) /\ NoDup (vnames m) /\
+  ca_inv (cm_gatts m) /\ Forall (cv_inv hs) (cm_vars m).
+
+(* table_inv of a file: every name table (dims, vars, global attributes, attributes of each variable)
+   of the current header and of the copy kept since redef *)
+Definition file_inv (f : cfile) : Prop :=
+  0 < cf_hs_vattr f /\ meta_inv (cf_hs_vattr f) (cf_meta f) /\
+  match cf_old f with Some o => meta_inv (cf_hs_vattr f) o | None => True end.
+
+Definition fref (cr : cres) (sr : sres) : Prop :=
+  exists f' o w, cr = Some (f', o, w) /\ sr = (abs_file f', o, w) /\ file_inv f'.
+
+Lemma fref_same : forall f o, file_inv f -> fref (cret f o) (sret (abs_file f) o).
+Proof. intros f o H. exists f, o, false. auto. Qed.
+
+Lemma vnames_abs : forall vs, map v_name (map abs_var vs) = map cv_name vs.
+Proof. intro vs. rewrite map_map. reflexivity. Qed.
+
+Lemma Forall_set_nth : forall A (P : A -> Prop) l i x, Forall P l -> P x -> Forall P (set_nth i l x).
+Proof.
+  induction l as [|a l IH]; intros i x Hf Hx; simpl; [destruct i; constructor|].
+  inversion Hf; subst. destruct i; constructor; auto.
+Qed.
+
+Lemma Forall_nth_error : forall A (P : A -> Prop) l i x, Forall P l -> nth_error l i = Some x -> P x.
+Proof. intros A P l i x Hf Hn. rewrite Forall_forall in Hf. apply Hf. eapply nth_error_In; eauto. Qed.
+
+Lemma nat_lt_Zlen : forall A (l : list A) v, 0 <= v -> v < Zlen l -> (Z.to_nat v < length l)%nat.
+Proof. intros. unfold Zlen in *. lia. Qed.
+
+Lemma get_ca_some : forall m v, varid_ok (Zlen (cm_vars m)) v = true -> exists ca, get_ca m v = Some ca.
+Proof.
+  intros m v H. unfold varid_ok in H. unfold get_ca.
+  destruct (v =? -1) eqn:E; [eauto|]. simpl in H. rewrite H.
+  destruct (nth_error_lt_some _ (cm_vars m) (Z.to_nat v)) as [x Hx]; [apply nat_lt_Zlen; lia|].
+  rewrite Hx. simpl. eauto.
+Qed.
+
+Lemma get_sa_abs : forall fmt nr m v, get_sa (abs_hdr fmt nr m) v = option_map ca_vals (get_ca m v).
+Proof.
+  intros. unfold get_sa, get_ca, abs_hdr. simpl. rewrite Zlen_map.
+  destruct (v =? -1); [reflexivity|].
+  destruct ((0 <=? v) && (v <? Zlen (cm_vars m))); [|reflexivity].
+  rewrite nth_error_map. destruct (nth_error (cm_vars m) (Z.to_nat v)); reflexivity.
+Qed.
+
+Lemma get_ca_inv : forall hs m v ca, meta_inv hs m -> get_ca m v = Some ca -> ca_inv ca.
+Proof.
+  intros hs m v ca (_ & _ & _ & _ & Hg & Hv) H. unfold get_ca in H.
+  destruct (v =? -1); [inversion H; subst; assumption|].
+  destruct ((0 <=? v) && (v <? Zlen (cm_vars m))); [|discriminate].
+  destruct (nth_error (cm_vars m) (Z.to_nat v)) as [x|] eqn:E; [|discriminate].
+  simpl in H. inversion H; subst. apply (Forall_nth_error _ _ _ _ _ Hv E).
+Qed.
+
+Lemma set_ca_abs : forall fmt nr m v ca0 ca, get_ca m v = Some ca0 ->
+  abs_hdr fmt nr (set_ca m v ca) = set_sa (abs_hdr fmt nr m) v (ca_vals ca).
+Proof.
+  intros fmt nr m v ca0 ca H. unfold get_ca in H. unfold set_ca, set_sa, abs_hdr. simpl.
+  destruct (v =? -1); [reflexivity|].
+  destruct ((0 <=? v) && (v <? Zlen (cm_vars m))); [|discriminate].
+  destruct (nth_error (cm_vars m) (Z.to_nat v)) as [x|] eqn:E; [|discriminate].
+  simpl. f_equal. rewrite map_set_nth. simpl. f_equal.
+  rewrite (nth_error_nth_d _ _ _ _ dflt_cvar E).
+  assert (E2 : nth_error (map abs_var (cm_vars m)) (Z.to_nat v) = Some (abs_var x))
+    by (rewrite nth_error_map, E; reflexivity).
+  rewrite (nth_error_nth_d _ _ _ _ dflt_var E2). reflexivity.
+Qed.
+
+Lemma set_ca_inv : forall hs m v ca0 ca, meta_inv hs m -> get_ca m v = Some ca0 ->
+  ca_inv ca -> nt_hsize (ca_tab ca) = nt_hsize (ca_tab ca0) -> meta_inv hs (set_ca m v ca).
+Proof.
+  intros hs m v ca0 ca (Hd & Hdn & Hv & Hvn & Hg & Hvs) H Hca Hhs. unfold get_ca in H. unfold set_ca.
+  destruct (v =? -1). { unfold meta_inv, dnames, vnames in *. simpl. tauto. }
+  destruct ((0 <=? v) && (v <? Zlen (cm_vars m))); [|discriminate].
+  destruct (nth_error (cm_vars m) (Z.to_nat v)) as [x|] eqn:E; [|discriminate].
+  simpl in H. inversion H; subst ca0.
+  rewrite (nth_error_nth_d _ _ _ _ dflt_cvar E).
+  assert (Hn : map cv_name (set_nth (Z.to_nat v) (cm_vars m)
+                 (mkcvar (cv_name x) (cv_type x) (cv_dimids x) (cv_begin x) ca)) = vnames m).
+  { rewrite map_set_nth. simpl. apply set_nth_same. unfold vnames. rewrite nth_error_map, E. reflexivity. }
+  unfold meta_inv, dnames, vnames in *. simpl. rewrite Hn.
+  split; [exact Hd|]. split; [exact Hdn|]. split; [exact Hv|]. split; [exact Hvn|]. split; [exact Hg|].
+  apply Forall_set_nth; [assumption|].
+  destruct (Forall_nth_error _ _ _ _ _ Hvs E) as [_ Hx]. split; simpl; [assumption | congruence].
+Qed.
+
+Lemma abs_set_meta : forall f m, abs_file (set_meta f m) =
+  set_hdr (abs_file f) (abs_hdr (cf_fmt f) (cf_numrecs f) m).
+Proof. reflexivity. Qed.
+
+Lemma file_inv_set_meta : forall f m, file_inv f -> meta_inv (cf_hs_vattr f) m -> file_inv (set_meta f m).
+Proof. intros f m (H1 & _ & H3) Hm. split; [assumption|]. split; assumption. Qed.
+
+Ltac absn := unfold abs_file, cf_hdr, abs_hdr; cbn [sf_hdr sf_indef sf_rdonly sf_old_nvars h_format h_numrecs
+  h_dims h_gatts h_vars]; rewrite ?Zlen_map, ?vnames_abs.
+
+(* ---------- def_dim ---------- *)
+Lemma c_def_dim_ref : forall f nm size, file_inv f ->
+  fref (c_def_dim hashf nfc f nm size) (s_def_dim nfc (abs_file f) nm size).
+Proof.
+  intros f nm size Hinv. pose proof Hinv as (Hhs & Hm & Hold).
+  pose proof Hm as (Hd & Hdn & Hv & Hvn & Hg & Hvs).
+  unfold c_def_dim, s_def_dim. absn.
+  destruct (negb (def_dim_pre (cf_fmt f) (cf_indef f) (cm_dims (cf_meta f)) nm size =? NC_NOERR)).
+  { apply fref_same. assumption. }
+  fold (dnames (cf_meta f)). rewrite (hfind_linear hashf hash_range _ _ (nfc nm) Hd Hdn).
+  destruct (find_name (nfc nm) (dnames (cf_meta f))) eqn:F. { apply fref_same. assumption. }
+  destruct (tab_calloc_inv hashf _ _ Hd) as (Hd1 & Hhs1 & Hal).
+  destruct (hash_insert_inv hashf hash_range _ _ (nfc nm) Hd1 Hal) as (t' & Hins & Ht' & Hhs').
+  unfold dnames in Hins. rewrite map_length in Hins. rewrite Hins.
+  eexists _, _, _. split; [reflexivity|]. split; [reflexivity|].
+  apply file_inv_set_meta; [assumption|].
+  unfold meta_inv, dnames, vnames in *. simpl. rewrite map_app. simpl.
+  split; [exact Ht'|]. split; [|tauto].
+  apply NoDup_snoc_new; [assumption|]. apply find_name_none. assumption.
+Qed.
+
+(* ---------- what the argument checks guarantee ---------- *)
+Ltac pre_split H :=
+  repeat match type of H with
+         | (if ?c then _ else _) = _ => let E := fresh "E" in destruct c eqn:E
+         end;
+  try discriminate; try (unfold NC_NOERR in *; lia).
+
+Lemma put_att_pre_ok : forall fmt rd nv v nm t n,
+  put_att_pre fmt rd nv v nm t n = NC_NOERR -> varid_ok nv v = true.
+Proof.
+  intros until n. unfold put_att_pre. intro H. destruct (varid_ok nv v); [reflexivity|].
+  simpl in H. pre_split H.
+Qed.
+
+Lemma get_att_pre_ok : forall nv v nm, get_att_pre nv v nm = NC_NOERR -> varid_ok nv v = true.
+Proof.
+  intros until nm. unfold get_att_pre. intro H. destruct (varid_ok nv v); [reflexivity|].
+  simpl in H. pre_split H.
+Qed.
+
+Lemma del_att_pre_ok : forall rd ind nv v nm, del_att_pre rd ind nv v nm = NC_NOERR -> varid_ok nv v = true.
+Proof.
+  intros until nm. unfold del_att_pre. intro H. destruct (varid_ok nv v); [reflexivity|].
+  simpl in H. pre_split H.
+Qed.
+
+Lemma rename_att_pre_ok : forall rd nv v nm nnm, rename_att_pre rd nv v nm nnm = NC_NOERR -> varid_ok nv v = true.
+Proof.
+  intros until nnm. unfold rename_att_pre. intro H. destruct (varid_ok nv v); [reflexivity|].
+  simpl in H. pre_split H.
+Qed.
+
+Lemma copy_att_pre_ok : forall rd nvi vi nvo vo nm, copy_att_pre rd nvi vi nvo vo nm = NC_NOERR ->
+  varid_ok nvi vi = true /\ varid_ok nvo vo = true.
+Proof.
+  intros until nm. unfold copy_att_pre. intro H.
+  destruct (varid_ok nvi vi); destruct (varid_ok nvo vo); simpl in H; auto; pre_split H.
+Qed.
+
+Lemma rename_dim_pre_ok : forall rd nd id nm, rename_dim_pre rd nd id nm = NC_NOERR -> 0 <= id < nd.
+Proof. intros until nm. unfold rename_dim_pre. intro H. pre_split H. Qed.
+
+Lemma rename_var_pre_ok : forall rd nv id nm, rename_var_pre rd nv id nm = NC_NOERR -> 0 <= id < nv.
+Proof. intros until nm. unfold rename_var_pre. intro H. pre_split H. Qed.
+
+Lemma negb_eqb_false : forall e, negb (e =? NC_NOERR) = false -> e = NC_NOERR.
+Proof. intros e H. apply negb_false_iff in H. apply Z.eqb_eq in H. assumption. Qed.
+
+Lemma abs_var_dflt : abs_var dflt_cvar = dflt_var.
+Proof. reflexivity. Qed.
+
+Lemma var_type_abs : forall vs i, v_type (nth i (map abs_var vs) dflt_var) = cv_type (nth i vs dflt_cvar).
+Proof. intros. rewrite <- abs_var_dflt, map_nth. reflexivity. Qed.
+
+(* an operation on the attribute array of (file f, varid v), lifted to the file *)
+Lemma attr_op_lift : forall f v ca ca', file_inv f -> get_ca (cf_meta f) v = Some ca ->
+  ca_inv ca' -> nt_hsize (ca_tab ca') = nt_hsize (ca_tab ca) ->
+  file_inv (set_meta f (set_ca (cf_meta f) v ca')) /\
+  abs_file (set_meta f (set_ca (cf_meta f) v ca')) =
+    set_hdr (abs_file f) (set_sa (sf_hdr (abs_file f)) v (ca_vals ca')).
+Proof.
+  intros f v ca ca' Hinv Hg Hca Hhs. split.
+  - apply file_inv_set_meta; [assumption|]. destruct Hinv as (_ & Hm & _).
+    eapply set_ca_inv; eauto.
+  - rewrite abs_set_meta. f_equal. eapply set_ca_abs; eauto.
+Qed.
+
+(* ---------- def_var ---------- *)
+Lemma c_def_var_ref : forall f nm t dimids, file_inv f ->
+  fref (c_def_var hashf nfc f nm t dimids) (s_def_var nfc (abs_file f) nm t dimids).
+Proof.
+  intros f nm t dimids Hinv. pose proof Hinv as (Hhs & Hm & Hold).
+  pose proof Hm as (Hd & Hdn & Hv & Hvn & Hg & Hvs).
+  unfold c_def_var, s_def_var. absn.
+  destruct (negb (def_var_pre (cf_fmt f) (cf_indef f) (Zlen (cm_vars (cf_meta f))) nm t =? NC_NOERR)).
+  { apply fref_same. assumption. }
+  fold (vnames (cf_meta f)). rewrite (hfind_linear hashf hash_range _ _ (nfc nm) Hv Hvn).
+  destruct (find_name (nfc nm) (vnames (cf_meta f))) eqn:F. { apply fref_same. assumption. }
+  destruct (negb (def_var_post (cm_dims (cf_meta f)) t dimids =? NC_NOERR)). { apply fref_same. assumption. }
+  destruct (tab_calloc_inv hashf _ _ Hv) as (Hv1 & Hhs1 & Hal).
+  destruct (hash_insert_inv hashf hash_range _ _ (nfc nm) Hv1 Hal) as (t' & Hins & Ht' & Hhs').
+  unfold vnames in Hins. rewrite map_length in Hins. rewrite Hins.
+  eexists _, _, _. split; [reflexivity|]. split.
+  { rewrite abs_set_meta. unfold abs_hdr. simpl. rewrite map_app. reflexivity. }
+  apply file_inv_set_meta; [assumption|].
+  unfold meta_inv, dnames, vnames in *. simpl. rewrite map_app. simpl.
+  split; [exact Hd|]. split; [exact Hdn|]. split; [exact Ht'|]. split.
+  { apply NoDup_snoc_new; [assumption|]. apply find_name_none. assumption. }
+  split; [exact Hg|]. apply Forall_app. split; [assumption|]. constructor; [|constructor].
+  split; simpl; [|reflexivity]. split; simpl; [|constructor]. split; simpl; [assumption | reflexivity].
+Qed.
+
+(* ---------- put_att ---------- *)
+Lemma c_put_att_ref : forall f v nm t vals, file_inv f ->
+  fref (c_put_att hashf nfc f v nm t vals) (s_put_att nfc (abs_file f) v nm t vals).
+Proof.
+  intros f v nm t vals Hinv. pose proof Hinv as (Hhs & Hm & Hold).
+  unfold c_put_att, s_put_att. absn.
+  destruct (negb (put_att_pre (cf_fmt f) (cf_rdonly f) (Zlen (cm_vars (cf_meta f))) v nm t (Zlen vals)
+                  =? NC_NOERR)) eqn:E.
+  { apply fref_same. assumption. }
+  apply negb_eqb_false, put_att_pre_ok in E.
+  unfold var_type_of. rewrite var_type_abs.
+  destruct (negb (fillvalue_rule v nm t (Zlen vals)
+                    (cv_type (nth (Z.to_nat v) (cm_vars (cf_meta f)) dflt_cvar))
+                    (option_map (fun o => Zlen (cm_vars o)) (cf_old f)) =? NC_NOERR)).
+  { apply fref_same. assumption. }
+  destruct (get_ca_some _ _ E) as [ca Hca].
+  fold (abs_hdr (cf_fmt f) (cf_numrecs f) (cf_meta f)). rewrite get_sa_abs, Hca. simpl.
+  destruct (att_put_value t vals) as [data ce].
+  pose proof (get_ca_inv _ _ _ _ Hm Hca) as Hcai.
+  destruct (c_attr_put_ref (cf_indef f) ca (nfc nm) t (Zlen vals) data Hcai) as (ca' & Hp & Hv' & Hi' & Hh').
+  rewrite Hp. destruct (s_attr_put (cf_indef f) (ca_vals ca) (nfc nm) t (Zlen vals) data) as [l' rc].
+  simpl in *. destruct (negb (rc =? NC_NOERR)). { apply fref_same. assumption. }
+  destruct (attr_op_lift f v ca ca' Hinv Hca Hi' Hh') as [Hfi Habs].
+  eexists _, _, _. split; [reflexivity|]. split; [|exact Hfi].
+  rewrite Habs. subst l'. reflexivity.
+Qed.
+
+(* ---------- lookups: get_att, inq_attid, inq_dimid, inq_varid ---------- *)
+Lemma find_att_nth : forall nm (l : list att) i, find_name nm (map a_name l) = Some i ->
+  exists a, nth_error l i = Some a /\ nth i l dflt_att = a.
+Proof. intros. destruct (find_name_att _ _ _ H) as (a & H1 & _ & H3). eauto. Qed.
+
+Lemma c_get_att_ref : forall f v nm, file_inv f ->
+  fref (c_get_att hashf nfc f v nm) (s_get_att nfc (abs_file f) v nm).
+Proof.
+  intros f v nm Hinv. pose proof Hinv as (Hhs & Hm & Hold).
+  unfold c_get_att, s_get_att. absn.
+  destruct (negb (get_att_pre (Zlen (cm_vars (cf_meta f))) v nm =? NC_NOERR)) eqn:E.
+  { apply fref_same. assumption. }
+  apply negb_eqb_false, get_att_pre_ok in E.
+  destruct (get_ca_some _ _ E) as [ca Hca].
+  fold (abs_hdr (cf_fmt f) (cf_numrecs f) (cf_meta f)). rewrite get_sa_abs, Hca. simpl.
+  rewrite (ca_find_linear ca (nfc nm) (get_ca_inv _ _ _ _ Hm Hca)).
+  destruct (find_name (nfc nm) (map a_name (ca_vals ca))); apply fref_same; assumption.
+Qed.
+
+Lemma c_inq_attid_ref : forall f v nm, file_inv f ->
+  fref (c_inq_attid hashf nfc f v nm) (s_inq_attid nfc (abs_file f) v nm).
+Proof.
+  intros f v nm Hinv. pose proof Hinv as (Hhs & Hm & Hold).
+  unfold c_inq_attid, s_inq_attid. absn.
+  destruct (negb (get_att_pre (Zlen (cm_vars (cf_meta f))) v nm =? NC_NOERR)) eqn:E.
+  { apply fref_same. assumption. }
+  apply negb_eqb_false, get_att_pre_ok in E.
+  destruct (get_ca_some _ _ E) as [ca Hca].
+  fold (abs_hdr (cf_fmt f) (cf_numrecs f) (cf_meta f)). rewrite get_sa_abs, Hca. simpl.
+  rewrite (ca_find_linear ca (nfc nm) (get_ca_inv _ _ _ _ Hm Hca)).
+  destruct (find_name (nfc nm) (map a_name (ca_vals ca))); apply fref_same; assumption.
+Qed.
+
+Lemma c_inq_dimid_ref : forall f nm, file_inv f ->
+  fref (c_inq_dimid hashf nfc f nm) (s_inq_dimid nfc (abs_file f) nm).
+Proof.
+  intros f nm Hinv. pose proof Hinv as (Hhs & Hm & Hold).
+  pose proof Hm as (Hd & Hdn & Hv & Hvn & Hg & Hvs).
+  unfold c_inq_dimid, s_inq_dimid. absn.
+  destruct (negb (inq_id_pre nm =? NC_NOERR)). { apply fref_same. assumption. }
+  fold (dnames (cf_meta f)). rewrite (hfind_linear hashf hash_range _ _ (nfc nm) Hd Hdn).
+  destruct (find_name (nfc nm) (dnames (cf_meta f))); apply fref_same; assumption.
+Qed.
+
+Lemma c_inq_varid_ref : forall f nm, file_inv f ->
+  fref (c_inq_varid hashf nfc f nm) (s_inq_varid nfc (abs_file f) nm).
+Proof.
+  intros f nm Hinv. pose proof Hinv as (Hhs & Hm & Hold).
+  pose proof Hm as (Hd & Hdn & Hv & Hvn & Hg & Hvs).
+  unfold c_inq_varid, s_inq_varid. absn.
+  destruct (negb (inq_id_pre nm =? NC_NOERR)). { apply fref_same. assumption. }
+  fold (vnames (cf_meta f)). rewrite (hfind_linear hashf hash_range _ _ (nfc nm) Hv Hvn).
+  destruct (find_name (nfc nm) (vnames (cf_meta f))); apply fref_same; assumption.
+Qed.
+
+Lemma c_inq_ref : forall f, file_inv f -> fref (c_inq f) (s_inq (abs_file f)).
+Proof. intros f H. unfold c_inq, s_inq. apply fref_same. assumption. Qed.
+
+(* ---------- del_att, rename_att ---------- *)
+Lemma c_del_att_ref : forall f v nm, file_inv f ->
+  fref (c_del_att hashf nfc f v nm) (s_del_att nfc (abs_file f) v nm).
+Proof.
+  intros f v nm Hinv. pose proof Hinv as (Hhs & Hm & Hold).
+  unfold c_del_att, s_del_att. absn.
+  destruct (negb (del_att_pre (cf_rdonly f) (cf_indef f) (Zlen (cm_vars (cf_meta f))) v nm =? NC_NOERR)) eqn:E.
+  { apply fref_same. assumption. }
+  apply negb_eqb_false, del_att_pre_ok in E.
+  destruct (get_ca_some _ _ E) as [ca Hca].
+  fold (abs_hdr (cf_fmt f) (cf_numrecs f) (cf_meta f)). rewrite get_sa_abs, Hca. simpl.
+  pose proof (get_ca_inv _ _ _ _ Hm Hca) as Hcai.
+  destruct (c_attr_del_ref ca (nfc nm) Hcai) as (ca' & Hp & Hv' & Hi' & Hh').
+  rewrite Hp. destruct (s_attr_del (ca_vals ca) (nfc nm)) as [l' rc].
+  simpl in *. destruct (negb (rc =? NC_NOERR)). { apply fref_same. assumption. }
+  destruct (attr_op_lift f v ca ca' Hinv Hca Hi' Hh') as [Hfi Habs].
+  eexists _, _, _. split; [reflexivity|]. split; [|exact Hfi].
+  rewrite Habs. subst l'. reflexivity.
+Qed.
+
+Lemma c_rename_att_ref : forall f v nm nnm, file_inv f ->
+  fref (c_rename_att hashf nfc f v nm nnm) (s_rename_att nfc (abs_file f) v nm nnm).
+Proof.
+  intros f v nm nnm Hinv. pose proof Hinv as (Hhs & Hm & Hold).
+  unfold c_rename_att, s_rename_att. absn.
+  destruct (negb (rename_att_pre (cf_rdonly f) (Zlen (cm_vars (cf_meta f))) v nm nnm =? NC_NOERR)) eqn:E.
+  { apply fref_same. assumption. }
+  apply negb_eqb_false, rename_att_pre_ok in E.
+  destruct (get_ca_some _ _ E) as [ca Hca].
+  fold (abs_hdr (cf_fmt f) (cf_numrecs f) (cf_meta f)). rewrite get_sa_abs, Hca. simpl.
+  pose proof (get_ca_inv _ _ _ _ Hm Hca) as Hcai.
+  destruct (c_attr_rename_ref (cf_indef f) ca (nfc nm) (nfc nnm) Hcai) as (ca' & Hp & Hv' & Hi' & Hh').
+  rewrite Hp. destruct (s_attr_rename (cf_indef f) (ca_vals ca) (nfc nm) (nfc nnm)) as [l' rc].
+  simpl in *. destruct (negb (rc =? NC_NOERR)). { apply fref_same. assumption. }
+  destruct (attr_op_lift f v ca ca' Hinv Hca Hi' Hh') as [Hfi Habs].
+  eexists _, _, _. split; [reflexivity|]. split; [|exact Hfi].
+  rewrite Habs. subst l'. reflexivity.
+Qed.
+
+(* ---------- copy_att ---------- *)
+Lemma c_copy_read_ref : forall f v nm, file_inv f -> varid_ok (Zlen (cm_vars (cf_meta f))) v = true ->
+  c_copy_read hashf nfc f v nm = s_copy_read nfc (abs_file f) v nm /\
+  c_copy_read hashf nfc f v nm <> None.
+Proof.
+  intros f v nm Hinv E. pose proof Hinv as (Hhs & Hm & Hold).
+  unfold c_copy_read, s_copy_read. absn.
+  destruct (get_ca_some _ _ E) as [ca Hca].
+  fold (abs_hdr (cf_fmt f) (cf_numrecs f) (cf_meta f)). rewrite get_sa_abs, Hca. simpl.
+  rewrite (ca_find_linear ca (nfc nm) (get_ca_inv _ _ _ _ Hm Hca)).
+  destruct (find_name (nfc nm) (map a_name (ca_vals ca))); split; auto; discriminate.
+Qed.
+
+Lemma c_copy_write_ref : forall f v nm a self, file_inv f ->
+  varid_ok (Zlen (cm_vars (cf_meta f))) v = true ->
+  fref (c_copy_write hashf nfc f v nm a self) (s_copy_write nfc (abs_file f) v nm a self).
+Proof.
+  intros f v nm a self Hinv E. pose proof Hinv as (Hhs & Hm & Hold).
+  unfold c_copy_write, s_copy_write. absn.
+  destruct (get_ca_some _ _ E) as [ca Hca].
+  fold (abs_hdr (cf_fmt f) (cf_numrecs f) (cf_meta f)). rewrite get_sa_abs, Hca. simpl.
+  pose proof (get_ca_inv _ _ _ _ Hm Hca) as Hcai.
+  destruct self.
+  { rewrite (ca_find_linear ca (nfc nm) Hcai). apply fref_same. assumption. }
+  destruct (c_attr_put_ref (cf_indef f) ca (nfc nm) (a_type a) (a_nelems a) (a_data a) Hcai)
+    as (ca' & Hp & Hv' & Hi' & Hh').
+  rewrite Hp. destruct (s_attr_put (cf_indef f) (ca_vals ca) (nfc nm) (a_type a) (a_nelems a) (a_data a)) as [l' rc].
+  simpl in *. destruct (negb (rc =? NC_NOERR)). { apply fref_same. assumption. }
+  destruct (attr_op_lift f v ca ca' Hinv Hca Hi' Hh') as [Hfi Habs].
+  eexists _, _, _. split; [reflexivity|]. split; [|exact Hfi].
+  rewrite Habs. subst l'. reflexivity.
+Qed.
+
+(* ---------- rename_dim, rename_var ---------- *)
+Lemma c_rename_dim_ref : forall f id nm, file_inv f ->
+  fref (c_rename_dim hashf nfc f id nm) (s_rename_dim nfc (abs_file f) id nm).
+Proof.
+  intros f id nm Hinv. pose proof Hinv as (Hhs & Hm & Hold).
+  pose proof Hm as (Hd & Hdn & Hv & Hvn & Hg & Hvs).
+  unfold c_rename_dim, s_rename_dim. absn.
+  destruct (negb (rename_dim_pre (cf_rdonly f) (Zlen (cm_dims (cf_meta f))) id nm =? NC_NOERR)) eqn:E.
+  { apply fref_same. assumption. }
+  apply negb_eqb_false, rename_dim_pre_ok in E.
+  fold (dnames (cf_meta f)). rewrite (hfind_linear hashf hash_range _ _ (nfc nm) Hd Hdn).
+  destruct (find_name (nfc nm) (dnames (cf_meta f))) as [j|] eqn:F.
+  { destruct (Nat.eqb j (Z.to_nat id)); apply fref_same; assumption. }
+  destruct (nth_error_lt_some _ (cm_dims (cf_meta f)) (Z.to_nat id)) as [old Hold']; [apply nat_lt_Zlen; lia|].
+  rewrite (nth_error_nth_d _ _ _ _ dflt_dim Hold').
+  destruct (negb (cf_indef f) && (Zlen (d_name old) <? Zlen (nfc nm))). { apply fref_same. assumption. }
+  assert (Hi : nth_error (dnames (cf_meta f)) (Z.to_nat id) = Some (d_name old)).
+  { unfold dnames. rewrite nth_error_map, Hold'. reflexivity. }
+  destruct (hash_update_inv hashf hash_range _ _ _ _ (nfc nm) Hd Hi) as (t' & Hu & Ht' & Hhs').
+  rewrite Hu. eexists _, _, _. split; [reflexivity|]. split; [reflexivity|].
+  apply file_inv_set_meta; [assumption|].
+  unfold meta_inv, dnames, vnames in *. simpl. rewrite map_set_nth. simpl.
+  split; [exact Ht'|]. split; [|tauto].
+  apply NoDup_set_nth_new; [assumption|]. apply find_name_none. assumption.
+Qed.
+
+Lemma c_rename_var_ref : forall f id nm, file_inv f ->
+  fref (c_rename_var hashf nfc f id nm) (s_rename_var nfc (abs_file f) id nm).
+Proof.
+  intros f id nm Hinv. pose proof Hinv as (Hhs & Hm & Hold).
+  pose proof Hm as (Hd & Hdn & Hv & Hvn & Hg & Hvs).
+  unfold c_rename_var, s_rename_var. absn.
+  destruct (negb (rename_var_pre (cf_rdonly f) (Zlen (cm_vars (cf_meta f))) id nm =? NC_NOERR)) eqn:E.
+  { apply fref_same. assumption. }
+  apply negb_eqb_false, rename_var_pre_ok in E.
+  fold (vnames (cf_meta f)). rewrite (hfind_linear hashf hash_range _ _ (nfc nm) Hv Hvn).
+  destruct (find_name (nfc nm) (vnames (cf_meta f))) as [j|] eqn:F.
+  { apply fref_same; assumption. }
+  destruct (nth_error_lt_some _ (cm_vars (cf_meta f)) (Z.to_nat id)) as [old Hold']; [apply nat_lt_Zlen; lia|].
+  rewrite (nth_error_nth_d _ _ _ _ dflt_cvar Hold').
+  assert (Hold2 : nth_error (map abs_var (cm_vars (cf_meta f))) (Z.to_nat id) = Some (abs_var old))
+    by (rewrite nth_error_map, Hold'; reflexivity).
+  rewrite (nth_error_nth_d _ _ _ _ dflt_var Hold2). simpl.
+  destruct (negb (cf_indef f) && (Zlen (cv_name old) <? Zlen (nfc nm))). { apply fref_same. assumption. }
+  assert (Hi : nth_error (vnames (cf_meta f)) (Z.to_nat id) = Some (cv_name old)).
+  { unfold vnames. rewrite nth_error_map, Hold'. reflexivity. }
+  destruct (hash_update_inv hashf hash_range _ _ _ _ (nfc nm) Hv Hi) as (t' & Hu & Ht' & Hhs').
+  rewrite Hu. eexists _, _, _. split; [reflexivity|]. split.
+  { rewrite abs_set_meta. unfold abs_hdr. simpl. rewrite map_set_nth. reflexivity. }
+  apply file_inv_set_meta; [assumption|].
+  unfold meta_inv, dnames, vnames in *. simpl. rewrite map_set_nth. simpl.
+  split; [exact Hd|]. split; [exact Hdn|]. split; [exact Ht'|]. split.
+  { apply NoDup_set_nth_new; [assumption|]. apply find_name_none. assumption. }
+  split; [exact Hg|]. apply Forall_set_nth; [assumption|].
+  apply (Forall_nth_error _ _ _ _ _ Hvs Hold').
+Qed.
+
+(* ---------- redef (header copy incl. hash_table_copy) ---------- *)
+Lemma dup_cattrs_ok : forall hs ca, ca_inv ca -> nt_hsize (ca_tab ca) = hs ->
+  exists ca', dup_cattrs hs ca = Some ca' /\ ca_vals ca' = ca_vals ca /\ ca_inv ca' /\
+              nt_hsize (ca_tab ca') = hs.
+Proof.
+  intros hs ca [Ht Hnd] Hhs. unfold dup_cattrs. subst hs.
+  destruct (hash_dup_inv hashf _ _ Ht) as (t' & Hd & Ht' & Hhs').
+  unfold ca_names in Hd. rewrite map_length in Hd. rewrite Hd.
+  eexists. split; [reflexivity|]. split; [reflexivity|]. split; [|assumption].
+  split; assumption.
+Qed.
+
+Lemma dup_vars_ok : forall hs vs, Forall (cv_inv hs) vs ->
+  exists vs', dup_vars hs vs = Some vs' /\ map abs_var vs' = map abs_var vs /\
+              map cv_name vs' = map cv_name vs /\ Forall (cv_inv hs) vs'.
+Proof.
+  induction vs as [|v vs IH]; intro Hf; simpl.
+  - exists []. auto.
+  - inversion Hf as [|? ? Hcv Hf']; subst. destruct Hcv as [Hca Hhs].
+    destruct (dup_cattrs_ok hs (cv_atts v) Hca Hhs) as (ca' & Hd & Hv & Hi & Hh). rewrite Hd.
+    destruct (IH Hf') as (vs' & Hd' & Ha & Hn & Hfa). rewrite Hd'.
+    eexists. split; [reflexivity|]. simpl. split.
+    { f_equal; [|assumption]. unfold abs_var. simpl. rewrite Hv. reflexivity. }
+    split; [f_equal; assumption|]. constructor; [|assumption]. split; assumption.
+Qed.
+
+Lemma dup_meta_ok : forall hs m, meta_inv hs m ->
+  exists o, dup_meta hs m = Some o /\ meta_inv hs o /\ Zlen (cm_vars o) = Zlen (cm_vars m).
+Proof.
+  intros hs m (Hd & Hdn & Hv & Hvn & Hg & Hvs). unfold dup_meta.
+  destruct (hash_dup_inv hashf _ _ Hd) as (dt & Hdd & Hdt & _).
+  unfold dnames in Hdd. rewrite map_length in Hdd. rewrite Hdd.
+  destruct (dup_cattrs_ok _ (cm_gatts m) Hg eq_refl) as (ga & Hdg & Hgv & Hgi & _). rewrite Hdg.
+  destruct (dup_vars_ok hs (cm_vars m) Hvs) as (vs & Hdv & Hva & Hvn' & Hvf). rewrite Hdv.
+  destruct (hash_dup_inv hashf _ _ Hv) as (vt & Hdvt & Hvt & _).
+  unfold vnames in Hdvt. rewrite map_length in Hdvt. rewrite Hdvt.
+  eexists. split; [reflexivity|]. split.
+  - unfold meta_inv, dnames, vnames in *. simpl. rewrite Hvn'. tauto.
+  - simpl. unfold Zlen. f_equal. rewrite <- (map_length cv_name vs), Hvn', map_length. reflexivity.
+Qed.
+
+Lemma c_redef_ref : forall f, file_inv f -> fref (c_redef f) (s_redef (abs_file f)).
+Proof.
+  intros f Hinv. pose proof Hinv as (Hhs & Hm & Hold).
+  unfold c_redef, s_redef.
+  change (sf_rdonly (abs_file f)) with (cf_rdonly f). change (sf_indef (abs_file f)) with (cf_indef f).
+  destruct (cf_rdonly f) eqn:Erd. { apply fref_same. assumption. }
+  destruct (cf_indef f) eqn:Ein. { apply fref_same. assumption. }
+  destruct (dup_meta_ok _ _ Hm) as (o & Hd & Hoi & Hlen). rewrite Hd.
+  eexists _, _, _. split; [reflexivity|]. split.
+  - unfold sret, abs_file, cf_hdr, abs_hdr. simpl. rewrite Hlen, Zlen_map. reflexivity.
+  - split; [assumption|]. simpl. split; assumption.
+Qed.
+
+(* ---------- enddef ---------- *)
+Lemma apply_begins_names : forall vs bl, map cv_name (apply_begins vs bl) = map cv_name vs.
+Proof. induction vs as [|v vs IH]; intro bl; simpl; [reflexivity|]. destruct bl; simpl; f_equal; auto. Qed.
+
+Lemma apply_begins_abs : forall vs bl, map abs_var (apply_begins vs bl) = s_apply_begins (map abs_var vs) bl.
+Proof. induction vs as [|v vs IH]; intro bl; simpl; [reflexivity|]. destruct bl; simpl; f_equal; auto. Qed.
+
+Lemma apply_begins_inv : forall hs vs bl, Forall (cv_inv hs) vs -> Forall (cv_inv hs) (apply_begins vs bl).
+Proof.
+  induction vs as [|v vs IH]; intros bl Hf; simpl; [constructor|].
+  inversion Hf; subst. destruct bl; constructor; auto.
+Qed.
+
+Lemma c_enddef_ref : forall f bl, file_inv f -> fref (c_enddef f bl) (s_enddef (abs_file f) bl).
+Proof.
+  intros f bl Hinv. pose proof Hinv as (Hhs & Hm & Hold).
+  pose proof Hm as (Hd & Hdn & Hv & Hvn & Hg & Hvs).
+  unfold c_enddef, s_enddef. absn.
+  destruct (negb (cf_indef f)). { apply fref_same. assumption. }
+  fold (abs_hdr (cf_fmt f) (cf_numrecs f) (cf_meta f)). fold (cf_hdr f).
+  destruct (negb (check_vlens (cf_hdr f) =? NC_NOERR)). { apply fref_same. assumption. }
+  eexists _, _, _. split; [reflexivity|]. split.
+  - unfold abs_file, cf_hdr, abs_hdr. simpl. rewrite apply_begins_abs. reflexivity.
+  - split; [assumption|]. simpl. split; [|exact I].
+    unfold meta_inv, dnames, vnames in *. simpl. rewrite apply_begins_names.
+    split; [exact Hd|]. split; [exact Hdn|]. split; [exact Hv|]. split; [exact Hvn|]. split; [exact Hg|].
+    apply apply_begins_inv. assumption.
+Qed.
+
+(* ---------- open / create ---------- *)
+Definition hdr_nodup (h : hdr) : Prop :=
+  NoDup (map d_name (h_dims h)) /\ NoDup (map v_name (h_vars h)) /\ NoDup (map a_name (h_gatts h)) /\
+  Forall (fun v => NoDup (map a_name (v_atts v))) (h_vars h).
+
+Definition hcfg_pos (c : hcfg) : Prop := 0 < hc_dim c /\ 0 < hc_var c /\ 0 < hc_gatt c /\ 0 < hc_vatt c.
+
+Lemma hint_size_pos : forall g d, 0 < d -> 0 < hint_size g d.
+Proof. intros g d H. unfold hint_size. destruct g as [v|]; [|assumption]. destruct (v <=? 0) eqn:E; lia. Qed.
+
+(* with the repaired hint code (size <= 0 falls back to the default) every table size is positive *)
+Lemma hcfg_of_pos : forall a b c d, hcfg_pos (hcfg_of a b c d).
+Proof.
+  intros. unfold hcfg_pos, hcfg_of. simpl.
+  repeat split; apply hint_size_pos; reflexivity.
+Qed.
+
+Lemma open_cattrs_ok : forall hs l, 0 < hs -> NoDup (map a_name l) ->
+  exists ca, open_cattrs hashf hs l = Some ca /\ ca_vals ca = l /\ ca_inv ca /\ nt_hsize (ca_tab ca) = hs.
+Proof.
+  intros hs l Hhs Hnd. unfold open_cattrs.
+  destruct (hash_populate_inv hashf hash_range hs (map a_name l) Hhs) as (t & Hp & Ht & Hh). rewrite Hp.
+  eexists. split; [reflexivity|]. split; [reflexivity|]. split; [|assumption]. split; assumption.
+Qed.
+
+Lemma open_vars_ok : forall hs vs, 0 < hs -> Forall (fun v => NoDup (map a_name (v_atts v))) vs ->
+  exists cvs, open_vars hashf hs vs = Some cvs /\ map abs_var cvs = map norm_var vs /\
+              map cv_name cvs = map v_name vs /\ Forall (cv_inv hs) cvs.
+Proof.
+  intros hs vs Hhs. induction vs as [|v vs IH]; intro Hf; simpl.
+  - exists []. auto.
+  - inversion Hf as [|? ? Hv Hf']; subst.
+    destruct (open_cattrs_ok hs (v_atts v) Hhs Hv) as (ca & Ho & Hvals & Hi & Hh). rewrite Ho.
+    destruct (IH Hf') as (cvs & Ho' & Ha & Hn & Hfa). rewrite Ho'.
+    eexists. split; [reflexivity|]. simpl. split.
+    { f_equal; [|assumption]. unfold abs_var, norm_var. simpl. rewrite Hvals. reflexivity. }
+    split; [f_equal; assumption|]. constructor; [|assumption]. split; assumption.
+Qed.
+
+Lemma c_open_file_ok : forall h rd c, hcfg_pos c -> hdr_nodup h ->
+  exists f, c_open_file hashf h rd c = Some f /\ file_inv f /\
+            abs_file f = mksfile (norm_hdr h) None false rd.
+Proof.
+  intros h rd c (Hd & Hv & Hg & Ha) (Hnd & Hnv & Hng & Hna). unfold c_open_file.
+  destruct (hash_populate_inv hashf hash_range _ (map d_name (h_dims h)) Hd) as (dt & Hpd & Hdt & _). rewrite Hpd.
+  destruct (open_vars_ok _ (h_vars h) Ha Hna) as (cvs & Hov & Hab & Hnm & Hcf). rewrite Hov.
+  destruct (open_cattrs_ok _ (h_gatts h) Hg Hng) as (ga & Hog & Hgv & Hgi & _). rewrite Hog.
+  destruct (hash_populate_inv hashf hash_range _ (map cv_name cvs) Hv) as (vt & Hpv & Hvt & _). rewrite Hpv.
+  eexists. split; [reflexivity|]. split.
+  - split; [assumption|]. simpl. split; [|exact I].
+    unfold meta_inv, dnames, vnames. simpl. rewrite Hnm in *. tauto.
+  - unfold abs_file, cf_hdr, abs_hdr, norm_hdr. simpl. rewrite Hab, Hgv. reflexivity.
+Qed.
+
+Lemma c_create_file_ok : forall fmt c, hcfg_pos c ->
+  file_inv (c_create_file fmt c) /\
+  abs_file (c_create_file fmt c) = mksfile (mkhdr fmt 0 [] [] []) None true false.
+Proof.
+  intros fmt c (Hd & Hv & Hg & Ha). split; [|reflexivity].
+  split; [assumption|]. simpl. split; [|exact I].
+  unfold meta_inv, dnames, vnames, ca_inv, ca_names, tab_inv. simpl.
+  repeat split; try assumption; constructor.
+Qed.
+
+(* names of a file that satisfies the invariant are pairwise distinct (per table) *)
+Lemma file_inv_nodup : forall f, file_inv f -> hdr_nodup (cf_hdr f).
+Proof.
+  intros f (_ & (Hd & Hdn & Hv & Hvn & Hg & Hvs) & _). unfold hdr_nodup, cf_hdr, abs_hdr. simpl.
+  rewrite vnames_abs. split; [assumption|]. split; [assumption|]. split; [apply Hg|].
+  rewrite Forall_map. eapply Forall_impl; [|exact Hvs]. intros v [[_ H] _]. exact H.
+Qed.
+
+End Refine.
+
+(* ================================================================== *)
+(** * Part 3b: the header stays representable in the file format (=> decodable) *)
+Ltac pre_split H :=
+  repeat match type of H with
+         | (if ?c then _ else _) = _ => let E := fresh "E" in destruct c eqn:E
+         end;
+  try discriminate; try (unfold NC_NOERR in *; lia).
+
+Section WellFormed.
+Variable nfc : list byte -> list byte.
+(* assumption on the NFC oracle: a normalised legal name still fits a 32-bit length field *)
+Hypothesis nfc_len : forall nm, Zlen nm <= NC_MAX_NAME -> Zlen (nfc nm) <= NC_MAX_INT.
+
+Definition att_ok (fmt : Z) (a : att) : Prop :=
+  Zlen (a_name a) <= NC_MAX_INT /\ valid_type fmt (a_type a) = true /\
+  0 <= a_nelems a <= NC_MAX_INT /\ Zlen (a_data a) = a_nelems a * xlen_type (a_type a).
+
+Definition dim_ok (fmt : Z) (d : dim) : Prop :=
+  Zlen (d_name d) <= NC_MAX_INT /\ 0 <= d_size d /\ (fmt = 5 \/ d_size d <= NC_MAX_INT) /\
+  d_size d <= NC_MAX_INT64.
+
+Definition var_ok (fmt : Z) (v : var) : Prop :=
+  Zlen (v_name v) <= NC_MAX_INT /\ Zlen (v_dimids v) <= NC_MAX_INT /\
+  Forall (fun d => 0 <= d <= NC_MAX_INT) (v_dimids v) /\
+  Zlen (v_atts v) <= NC_MAX_INT /\ Forall (att_ok fmt) (v_atts v) /\
+  valid_type fmt (v_type v) = true /\ 0 <= v_begin v < 4294967296.
+
+Definition hdr_ok (h : hdr) : Prop :=
+  fmt_valid (h_format h) = true /\ 0 <= h_numrecs h <= NC_MAX_INT /\
+  Zlen (h_dims h) <= NC_MAX_INT /\ Forall (dim_ok (h_format h)) (h_dims h) /\
+  Zlen (h_gatts h) <= NC_MAX_INT /\ Forall (att_ok (h_format h)) (h_gatts h) /\
+  Zlen (h_vars h) <= NC_MAX_INT /\ Forall (var_ok (h_format h)) (h_vars h).
+
+Lemma fmt_valid_cases : forall fmt, fmt_valid fmt = true -> fmt = 1 \/ fmt = 2 \/ fmt = 5.
+Proof. unfold fmt_valid. intros. lia. Qed.
+
+Lemma att_ok_wf : forall fmt a, fmt_valid fmt = true -> att_ok fmt a -> wf_att fmt a = true.
+Proof.
+  intros fmt a Hf (H1 & H2 & H3 & H4). unfold wf_att, wf_name, nn_ok. rewrite H2.
+  pose proof (Zlen_nonneg _ (a_name a)). unfold NC_MAX_INT in *.
+  destruct (fmt <? 5); lia.
+Qed.
+
+Lemma dim_ok_wf : forall fmt d, fmt_valid fmt = true -> dim_ok fmt d -> wf_dim fmt d = true.
+Proof.
+  intros fmt d Hf (H1 & H2 & H3 & H4). unfold wf_dim, wf_name, nn_ok.
+  pose proof (Zlen_nonneg _ (d_name d)). apply fmt_valid_cases in Hf.
+  unfold NC_MAX_INT, NC_MAX_INT64 in *. destruct (fmt <? 5) eqn:E; lia.
+Qed.
+
+Lemma var_ok_wf : forall fmt v, fmt_valid fmt = true -> var_ok fmt v -> wf_var fmt v = true.
+Proof.
+  intros fmt v Hf (H1 & H2 & H3 & H4 & H5 & H6 & H7). unfold wf_var, wf_name.
+  pose proof (Zlen_nonneg _ (v_name v)). pose proof (Zlen_nonneg _ (v_dimids v)).
+  pose proof (Zlen_nonneg _ (v_atts v)).
+  assert (Hnn : forall x, 0 <= x <= NC_MAX_INT -> nn_ok fmt x = true).
+  { intros x Hx. unfold nn_ok, NC_MAX_INT in *. destruct (fmt <? 5); lia. }
+  rewrite !Hnn by lia. rewrite H6. simpl.
+  assert (Hd : forallb (nn_ok fmt) (v_dimids v) = true).
+  { apply Forall_forallb. eapply Forall_impl; [|exact H3]. intros; apply Hnn; assumption. }
+  assert (Ha : forallb (wf_att fmt) (v_atts v) = true).
+  { apply Forall_forallb. eapply Forall_impl; [|exact H5]. intros; apply att_ok_wf; assumption. }
+  rewrite Hd, Ha. simpl. unfold off_ok. destruct (fmt =? 1); lia.
+Qed.
+
+Theorem hdr_ok_wf : forall h, hdr_ok h -> wf_hdr h = true.
+Proof.
+  intros h (Hf & Hn & H1 & H2 & H3 & H4 & H5 & H6). unfold wf_hdr.
+  pose proof (Zlen_nonneg _ (h_dims h)). pose proof (Zlen_nonneg _ (h_gatts h)).
+  pose proof (Zlen_nonneg _ (h_vars h)).
+  assert (Hnn : forall x, 0 <= x <= NC_MAX_INT -> nn_ok (h_format h) x = true).
+  { intros x Hx. unfold nn_ok, NC_MAX_INT in *. destruct (h_format h <? 5); lia. }
+  assert (Hff : fmt_ok (h_format h) = true) by (unfold fmt_ok, fmt_valid in *; assumption).
+  rewrite Hff, !Hnn by lia. simpl.
+  rewrite (Forall_forallb _ (wf_dim (h_format h)) (h_dims h))
+    by (eapply Forall_impl; [|exact H2]; intros; apply dim_ok_wf; assumption).
+  rewrite (Forall_forallb _ (wf_att (h_format h)) (h_gatts h))
+    by (eapply Forall_impl; [|exact H4]; intros; apply att_ok_wf; assumption).
+  rewrite (Forall_forallb _ (wf_var (h_format h)) (h_vars h))
+    by (eapply Forall_impl; [|exact H6]; intros; apply var_ok_wf; assumption).
+  reflexivity.
+Qed.
+
+Lemma hdr_content_norm : forall h, hdr_content h = norm_hdr h.
+Proof. reflexivity. Qed.
+
+Lemma norm_hdr_ok : forall h, hdr_ok h -> hdr_ok (norm_hdr h).
+Proof.
+  intros h (Hf & Hn & H1 & H2 & H3 & H4 & H5 & H6). unfold hdr_ok, norm_hdr. simpl.
+  rewrite Zlen_map. repeat (split; [assumption|]). rewrite Forall_map.
+  eapply Forall_impl; [|exact H6]. intros v Hv. exact Hv.
+Qed.
+
+(* ---------- list-level preservation ---------- *)
+Lemma Zlen_set_nth : forall A i (l : list A) x, Zlen (set_nth i l x) = Zlen l.
+Proof. intros. unfold Zlen. rewrite set_nth_length. reflexivity. Qed.
+
+Lemma Zlen_del_nth_le : forall A i (l : list A), Zlen (del_nth i l) <= Zlen l.
+Proof.
+  intros A i l. unfold Zlen. revert i. induction l as [|a l IH]; intro i; simpl; [destruct i; simpl; lia|].
+  destruct i; simpl; [lia|]. specialize (IH i). lia.
+Qed.
+
+Lemma Forall_del_nth : forall A (P : A -> Prop) i l, Forall P l -> Forall P (del_nth i l).
+Proof.
+  intros A P i l. revert i. induction l as [|a l IH]; intros i Hf; simpl; [destruct i; constructor|].
+  inversion Hf; subst. destruct i; [assumption|]. constructor; auto.
+Qed.
+
+Lemma Forall_nth_d : forall A (P : A -> Prop) l i d, Forall P l -> P d -> P (nth i l d).
+Proof.
+  intros A P l. induction l as [|a l IH]; intros i d Hf Hd; destruct i; simpl; auto; inversion Hf; auto.
+Qed.
+
+Lemma s_attr_put_ok : forall fmt indef l nn t n data,
+  Zlen l <= NC_MAX_INT -> Forall (att_ok fmt) l ->
+  Zlen nn <= NC_MAX_INT -> valid_type fmt t = true -> 0 <= n <= NC_MAX_INT ->
+  Zlen data = n * xlen_type t ->
+  Zlen (fst (s_attr_put indef l nn t n data)) <= NC_MAX_INT /\
+  Forall (att_ok fmt) (fst (s_attr_put indef l nn t n data)).
+Proof.
+  intros fmt indef l nn t n data Hl Hf Hn Ht Hne Hd. unfold s_attr_put.
+  destruct (find_name nn (map a_name l)) as [i|] eqn:F.
+  - destruct (find_name_att _ _ _ F) as (a & Ha & Hna & Hda). rewrite Hda.
+    destruct (negb indef && (x_len_attrV t n >? att_xsz a)); simpl; [auto|].
+    rewrite Zlen_set_nth. split; [assumption|]. apply Forall_set_nth; [assumption|].
+    pose proof (Forall_nth_error _ _ _ _ _ Hf Ha) as (Hn1 & _).
+    split; [exact Hn1|]. simpl. auto.
+  - destruct (negb indef); simpl; [auto|].
+    destruct (Zlen l =? NC_MAX_INT) eqn:E; simpl; [auto|].
+    rewrite Zlen_app. unfold Zlen at 2. simpl. split; [lia|].
+    apply Forall_app. split; [assumption|]. constructor; [|constructor]. split; simpl; auto.
+Qed.
+
+Lemma s_attr_rename_ok : forall fmt indef l nn nnew,
+  Zlen l <= NC_MAX_INT -> Forall (att_ok fmt) l -> Zlen nnew <= NC_MAX_INT ->
+  Zlen (fst (s_attr_rename indef l nn nnew)) <= NC_MAX_INT /\
+  Forall (att_ok fmt) (fst (s_attr_rename indef l nn nnew)).
+Proof.
+  intros fmt indef l nn nnew Hl Hf Hn. unfold s_attr_rename.
+  destruct (find_name nn (map a_name l)) as [i|] eqn:F; simpl; [|auto].
+  destruct (find_name nnew (map a_name l)); simpl; [auto|].
+  destruct (find_name_att _ _ _ F) as (a & Ha & Hna & Hda). rewrite Hda.
+  destruct (negb indef && (Zlen (a_name a) <? Zlen nnew)); simpl; [auto|].
+  rewrite Zlen_set_nth. split; [assumption|]. apply Forall_set_nth; [assumption|].
+  pose proof (Forall_nth_error _ _ _ _ _ Hf Ha) as (_ & H2 & H3 & H4).
+  split; simpl; auto.
+Qed.
+
+Lemma s_attr_del_ok : forall fmt l nn,
+  Zlen l <= NC_MAX_INT -> Forall (att_ok fmt) l ->
+  Zlen (fst (s_attr_del l nn)) <= NC_MAX_INT /\ Forall (att_ok fmt) (fst (s_attr_del l nn)).
+Proof.
+  intros fmt l nn Hl Hf. unfold s_attr_del.
+  destruct (find_name nn (map a_name l)); simpl; [|auto].
+  split; [pose proof (Zlen_del_nth_le _ n l); lia | apply Forall_del_nth; assumption].
+Qed.
+
+Lemma get_sa_ok : forall h v l, hdr_ok h -> get_sa h v = Some l ->
+  Zlen l <= NC_MAX_INT /\ Forall (att_ok (h_format h)) l.
+Proof.
+  intros h v l (Hf & Hn & H1 & H2 & H3 & H4 & H5 & H6) H. unfold get_sa in H.
+  destruct (v =? -1); [inversion H; subst; auto|].
+  destruct ((0 <=? v) && (v <? Zlen (h_vars h))); [|discriminate].
+  destruct (nth_error (h_vars h) (Z.to_nat v)) as [x|] eqn:E; [|discriminate].
+  simpl in H. inversion H; subst.
+  destruct (Forall_nth_error _ _ _ _ _ H6 E) as (_ & _ & _ & Ha & Hb & _). auto.
+Qed.
+
+Lemma set_sa_ok : forall h v l0 l, hdr_ok h -> get_sa h v = Some l0 ->
+  Zlen l <= NC_MAX_INT -> Forall (att_ok (h_format h)) l -> hdr_ok (set_sa h v l).
+Proof.
+  intros h v l0 l (Hf & Hn & H1 & H2 & H3 & H4 & H5 & H6) H Hl Hfa. unfold get_sa in H. unfold set_sa.
+  destruct (v =? -1). { unfold hdr_ok. simpl. tauto. }
+  destruct ((0 <=? v) && (v <? Zlen (h_vars h))); [|discriminate].
+  destruct (nth_error (h_vars h) (Z.to_nat v)) as [x|] eqn:E; [|discriminate].
+  rewrite (nth_error_nth_d _ _ _ _ dflt_var E).
+  unfold hdr_ok. simpl. rewrite Zlen_set_nth.
+  repeat (split; [assumption|]). apply Forall_set_nth; [assumption|].
+  destruct (Forall_nth_error _ _ _ _ _ H6 E) as (A1 & A2 & A3 & A4 & A5 & A6 & A7).
+  unfold var_ok. simpl. tauto.
+Qed.
+
+(* ---------- attribute value bytes have the length the format prescribes ---------- *)
+Lemma Zlen_be_bytes : forall n x, Zlen (be_bytes n x) = Z.of_nat n.
+Proof.
+  induction n; intro x; simpl; [reflexivity|]. rewrite Zlen_app, IHn. unfold Zlen. simpl. lia.
+Qed.
+
+Lemma xlen_type_nonneg : forall t, 0 <= xlen_type t.
+Proof.
+  intro t. unfold xlen_type.
+  destruct ((t =? 1) || (t =? 2) || (t =? 7)); [lia|].
+  destruct ((t =? 3) || (t =? 8)); [lia|].
+  destruct ((t =? 4) || (t =? 5) || (t =? 9)); [lia|].
+  destruct ((t =? 6) || (t =? 10) || (t =? 11)); lia.
+Qed.
+
+Lemma Zlen_enc_value : forall t v, Zlen (enc_value t v) = xlen_type t.
+Proof.
+  intros t v. unfold enc_value. pose proof (xlen_type_nonneg t).
+  destruct (is_float_type t); rewrite Zlen_be_bytes; lia.
+Qed.
+
+Lemma Zlen_fill_bytes : forall t, Zlen (fill_bytes t) = xlen_type t.
+Proof. intro t. unfold fill_bytes. pose proof (xlen_type_nonneg t). rewrite Zlen_be_bytes. lia. Qed.
+
+Lemma Zlen_flat_map_const : forall A (f : A -> list byte) k l,
+  (forall x, Zlen (f x) = k) -> Zlen (flat_map f l) = Zlen l * k.
+Proof.
+  intros A f k l H. induction l as [|a l IH]; simpl; [reflexivity|].
+  rewrite Zlen_app, IH, H, Zlen_cons. lia.
+Qed.
+
+Lemma att_put_value_len : forall t vals, Zlen (fst (att_put_value t vals)) = Zlen vals * xlen_type t.
+Proof.
+  intros t vals. unfold att_put_value.
+  destruct (t =? 2) eqn:E2.
+  { apply Z.eqb_eq in E2. subst. simpl. rewrite Zlen_map. change (xlen_type 2) with 1. lia. }
+  destruct (is_float_type t); simpl.
+  { apply Zlen_flat_map_const. intro; apply Zlen_enc_value. }
+  destruct (t =? 11) eqn:E11; simpl.
+  { apply Z.eqb_eq in E11. subst. apply Zlen_flat_map_const. intro; apply Zlen_enc_value. }
+  apply Zlen_flat_map_const. intro v.
+  destruct ((type_min t <=? v) && (v <=? type_max t)); [apply Zlen_enc_value | apply Zlen_fill_bytes].
+Qed.
+
+(* ---------- arguments that fit their C types ---------- *)
+Definition op_repr (o : op) : Prop :=
+  match o with
+  | ODefDim _ _ size => size <= NC_MAX_INT64
+  | ODefVar _ _ _ dimids => Zlen dimids <= NC_MAX_INT
+  | OPutAtt _ _ _ _ vals => Zlen vals <= NC_MAX_INT
+  | OEnddef _ bl => Forall (fun b => 0 <= b < 4294967296) bl
+  | OClose _ bl => Forall (fun b => 0 <= b < 4294967296) bl
+  | _ => True
+  end.
+
+Lemma name_pre_len : forall nm, name_pre nm = NC_NOERR -> Zlen nm <= NC_MAX_NAME.
+Proof.
+  intros nm H. unfold name_pre in H. destruct nm as [|c nm]; [discriminate|].
+  destruct (Zlen (c :: nm) >? NC_MAX_NAME) eqn:E; [discriminate | lia].
+Qed.
+
+Lemma def_dim_pre_ok : forall fmt indef dims nm size, def_dim_pre fmt indef dims nm size = NC_NOERR ->
+  name_pre nm = NC_NOERR /\ 0 <= size /\ (fmt = 5 \/ size <= NC_MAX_INT) /\ Zlen dims <> NC_MAX_INT.
+Proof.
+  intros until size. unfold def_dim_pre. intro H. pre_split H.
+  all: repeat split; try lia.
+Qed.
+
+Lemma def_var_pre_ok : forall fmt indef nv nm t, fmt_valid fmt = true ->
+  def_var_pre fmt indef nv nm t = NC_NOERR ->
+  name_pre nm = NC_NOERR /\ valid_type fmt t = true /\ nv <> NC_MAX_INT.
+Proof.
+  intros until t. intro Hf. unfold def_var_pre. intro H. pre_split H.
+  all: apply fmt_valid_cases in Hf; unfold valid_type; repeat split; try lia.
+  all: destruct (fmt =? 5) eqn:Efive; lia.
+Qed.
+
+Lemma def_var_post_ok : forall dims t dimids, Zlen dims <= NC_MAX_INT ->
+  def_var_post dims t dimids = NC_NOERR -> Forall (fun d => 0 <= d <= NC_MAX_INT) dimids.
+Proof.
+  intros dims t dimids Hl. unfold def_var_post. intro H.
+  destruct (existsb (fun d => (d <? 0) || (d >=? Zlen dims)) dimids) eqn:E; [discriminate|].
+  apply Forall_forall. intros d Hd.
+  assert (Hx : ((d <? 0) || (d >=? Zlen dims)) = false).
+  { destruct ((d <? 0) || (d >=? Zlen dims)) eqn:E2; [|reflexivity].
+    assert (existsb (fun d => (d <? 0) || (d >=? Zlen dims)) dimids = true)
+      by (apply existsb_exists; exists d; auto). congruence. }
+  lia.
+Qed.
+
+Lemma put_att_pre_type : forall fmt rd nv v nm t n, fmt_valid fmt = true ->
+  put_att_pre fmt rd nv v nm t n = NC_NOERR ->
+  name_pre nm = NC_NOERR /\ valid_type fmt t = true /\ 0 <= n.
+Proof.
+  intros until n. intro Hf. unfold put_att_pre. intro H. pre_split H.
+  all: apply fmt_valid_cases in Hf; unfold valid_type; repeat split; try lia.
+  all: destruct (fmt =? 5) eqn:Efive; lia.
+Qed.
+
+Lemma rename_att_pre_name : forall rd nv v nm nnm, rename_att_pre rd nv v nm nnm = NC_NOERR ->
+  name_pre nnm = NC_NOERR.
+Proof. intros until nnm. unfold rename_att_pre. intro H. pre_split H. Qed.
+
+Lemma rename_dim_pre_name : forall rd nd id nm, rename_dim_pre rd nd id nm = NC_NOERR -> name_pre nm = NC_NOERR.
+Proof. intros until nm. unfold rename_dim_pre. intro H. pre_split H. Qed.
+
+Lemma rename_var_pre_name : forall rd nv id nm, rename_var_pre rd nv id nm = NC_NOERR -> name_pre nm = NC_NOERR.
+Proof. intros until nm. unfold rename_var_pre. intro H. pre_split H. Qed.
+
+Lemma nfc_ok : forall nm, name_pre nm = NC_NOERR -> Zlen (nfc nm) <= NC_MAX_INT.
+Proof. intros nm H. apply nfc_len, name_pre_len. assumption. Qed.
+
+(* ---------- every operation of the linear model keeps the header representable ---------- *)
+Notation shdr r := (sf_hdr (fst (fst r))).
+
+Lemma s_def_dim_ok : forall f nm size, hdr_ok (sf_hdr f) -> size <= NC_MAX_INT64 ->
+  hdr_ok (shdr (s_def_dim nfc f nm size)).
+Proof.
+  intros f nm size Hok Hsz. unfold s_def_dim.
+  destruct (negb (def_dim_pre (h_format (sf_hdr f)) (sf_indef f) (h_dims (sf_hdr f)) nm size =? NC_NOERR)) eqn:E;
+    [exact Hok|].
+  apply negb_eqb_false, def_dim_pre_ok in E. destruct E as (E1 & E2 & E3 & E4).
+  destruct (find_name (nfc nm) (map d_name (h_dims (sf_hdr f)))); [exact Hok|].
+  destruct Hok as (Hf & Hn & H1 & H2 & H3 & H4 & H5 & H6). unfold hdr_ok. simpl.
+  rewrite Zlen_app. unfold Zlen at 2. simpl.
+  split; [assumption|]. split; [assumption|]. split; [lia|]. split; [|tauto].
+  apply Forall_app. split; [assumption|]. constructor; [|constructor].
+  split; simpl; [apply nfc_ok; assumption | tauto].
+Qed.
+
+Lemma s_def_var_ok : forall f nm t dimids, hdr_ok (sf_hdr f) -> Zlen dimids <= NC_MAX_INT ->
+  hdr_ok (shdr (s_def_var nfc f nm t dimids)).
+Proof.
+  intros f nm t dimids Hok Hsz. unfold s_def_var.
+  destruct (negb (def_var_pre (h_format (sf_hdr f)) (sf_indef f) (Zlen (h_vars (sf_hdr f))) nm t =? NC_NOERR)) eqn:E;
+    [exact Hok|].
+  pose proof Hok as (Hf & Hn & H1 & H2 & H3 & H4 & H5 & H6).
+  apply negb_eqb_false, (def_var_pre_ok _ _ _ _ _ Hf) in E. destruct E as (E1 & E2 & E3).
+  destruct (find_name (nfc nm) (map v_name (h_vars (sf_hdr f)))); [exact Hok|].
+  destruct (negb (def_var_post (h_dims (sf_hdr f)) t dimids =? NC_NOERR)) eqn:E4; [exact Hok|].
+  apply negb_eqb_false, (def_var_post_ok _ _ _ H1) in E4.
+  unfold hdr_ok. simpl. rewrite Zlen_app. unfold Zlen at 2. simpl.
+  repeat (split; [assumption|]). split; [lia|].
+  apply Forall_app. split; [assumption|]. constructor; [|constructor].
+  unfold var_ok. simpl. split; [apply nfc_ok; assumption|]. split; [assumption|]. split; [assumption|].
+  split; [unfold Zlen, NC_MAX_INT; simpl; lia|]. split; [constructor|]. split; [assumption | lia].
+Qed.
+
+Lemma s_put_att_ok : forall f v nm t vals, hdr_ok (sf_hdr f) -> Zlen vals <= NC_MAX_INT ->
+  hdr_ok (shdr (s_put_att nfc f v nm t vals)).
+Proof.
+  intros f v nm t vals Hok Hsz. unfold s_put_att.
+  destruct (negb (put_att_pre (h_format (sf_hdr f)) (sf_rdonly f) (Zlen (h_vars (sf_hdr f))) v nm t (Zlen vals)
+                  =? NC_NOERR)) eqn:E; [exact Hok|].
+  pose proof Hok as (Hf & _).
+  apply negb_eqb_false, (put_att_pre_type _ _ _ _ _ _ _ Hf) in E. destruct E as (E1 & E2 & E3).
+  destruct (negb (fillvalue_rule v nm t (Zlen vals) (v_type (nth (Z.to_nat v) (h_vars (sf_hdr f)) dflt_var))
+                    (sf_old_nvars f) =? NC_NOERR)); [exact Hok|].
+  destruct (get_sa (sf_hdr f) v) as [l|] eqn:G; [|exact Hok].
+  pose proof (att_put_value_len t vals) as Hlen.
+  destruct (att_put_value t vals) as [data ce]. simpl in Hlen.
+  destruct (get_sa_ok _ _ _ Hok G) as [Hl Hfa].
+  destruct (s_attr_put_ok (h_format (sf_hdr f)) (sf_indef f) l (nfc nm) t (Zlen vals) data Hl Hfa
+              (nfc_ok _ E1) E2 (conj E3 Hsz) Hlen) as [A B].
+  destruct (s_attr_put (sf_indef f) l (nfc nm) t (Zlen vals) data) as [l' rc]. simpl in *.
+  destruct (negb (rc =? NC_NOERR)); [exact Hok|]. simpl.
+  eapply set_sa_ok; eauto.
+Qed.
+
+Lemma s_del_att_ok : forall f v nm, hdr_ok (sf_hdr f) -> hdr_ok (shdr (s_del_att nfc f v nm)).
+Proof.
+  intros f v nm Hok. unfold s_del_att.
+  destruct (negb (del_att_pre (sf_rdonly f) (sf_indef f) (Zlen (h_vars (sf_hdr f))) v nm =? NC_NOERR)); [exact Hok|].
+  destruct (get_sa (sf_hdr f) v) as [l|] eqn:G; [|exact Hok].
+  destruct (get_sa_ok _ _ _ Hok G) as [Hl Hfa].
+  destruct (s_attr_del_ok (h_format (sf_hdr f)) l (nfc nm) Hl Hfa) as [A B].
+  destruct (s_attr_del l (nfc nm)) as [l' rc]. simpl in *.
+  destruct (negb (rc =? NC_NOERR)); [exact Hok|]. simpl. eapply set_sa_ok; eauto.
+Qed.
+
+Lemma s_rename_att_ok : forall f v nm nnm, hdr_ok (sf_hdr f) -> hdr_ok (shdr (s_rename_att nfc f v nm nnm)).
+Proof.
+  intros f v nm nnm Hok. unfold s_rename_att.
+  destruct (negb (rename_att_pre (sf_rdonly f) (Zlen (h_vars (sf_hdr f))) v nm nnm =? NC_NOERR)) eqn:E; [exact Hok|].
+  apply negb_eqb_false, rename_att_pre_name in E.
+  destruct (get_sa (sf_hdr f) v) as [l|] eqn:G; [|exact Hok].
+  destruct (get_sa_ok _ _ _ Hok G) as [Hl Hfa].
+  destruct (s_attr_rename_ok (h_format (sf_hdr f)) (sf_indef f) l (nfc nm) (nfc nnm) Hl Hfa (nfc_ok _ E)) as [A B].
+  destruct (s_attr_rename (sf_indef f) l (nfc nm) (nfc nnm)) as [l' rc]. simpl in *.
+  destruct (negb (rc =? NC_NOERR)); [exact Hok|]. simpl. eapply set_sa_ok; eauto.
+Qed.
+
+Lemma s_rename_dim_ok : forall f id nm, hdr_ok (sf_hdr f) -> hdr_ok (shdr (s_rename_dim nfc f id nm)).
+Proof.
+  intros f id nm Hok. unfold s_rename_dim.
+  destruct (negb (rename_dim_pre (sf_rdonly f) (Zlen (h_dims (sf_hdr f))) id nm =? NC_NOERR)) eqn:E; [exact Hok|].
+  apply negb_eqb_false in E. pose proof (rename_dim_pre_name _ _ _ _ E) as En.
+  apply rename_dim_pre_ok in E.
+  destruct (find_name (nfc nm) (map d_name (h_dims (sf_hdr f)))) as [j|].
+  { destruct (Nat.eqb j (Z.to_nat id)); exact Hok. }
+  destruct (nth_error_lt_some _ (h_dims (sf_hdr f)) (Z.to_nat id)) as [old Hold]; [apply nat_lt_Zlen; lia|].
+  rewrite (nth_error_nth_d _ _ _ _ dflt_dim Hold).
+  destruct (negb (sf_indef f) && (Zlen (d_name old) <? Zlen (nfc nm))); [exact Hok|].
+  destruct Hok as (Hf & Hn & H1 & H2 & H3 & H4 & H5 & H6). unfold hdr_ok. simpl. rewrite Zlen_set_nth.
+  split; [assumption|]. split; [assumption|]. split; [assumption|]. split; [|tauto].
+  apply Forall_set_nth; [assumption|].
+  destruct (Forall_nth_error _ _ _ _ _ H2 Hold) as (_ & B1 & B2 & B3).
+  split; simpl; [apply nfc_ok; assumption | tauto].
+Qed.
+
+Lemma s_rename_var_ok : forall f id nm, hdr_ok (sf_hdr f) -> hdr_ok (shdr (s_rename_var nfc f id nm)).
+Proof.
+  intros f id nm Hok. unfold s_rename_var.
+  destruct (negb (rename_var_pre (sf_rdonly f) (Zlen (h_vars (sf_hdr f))) id nm =? NC_NOERR)) eqn:E; [exact Hok|].
+  apply negb_eqb_false in E. pose proof (rename_var_pre_name _ _ _ _ E) as En.
+  apply rename_var_pre_ok in E.
+  destruct (find_name (nfc nm) (map v_name (h_vars (sf_hdr f)))) as [j|]; [exact Hok|].
+  destruct (nth_error_lt_some _ (h_vars (sf_hdr f)) (Z.to_nat id)) as [old Hold]; [apply nat_lt_Zlen; lia|].
+  rewrite (nth_error_nth_d _ _ _ _ dflt_var Hold).
+  destruct (negb (sf_indef f) && (Zlen (v_name old) <? Zlen (nfc nm))); [exact Hok|].
+  destruct Hok as (Hf & Hn & H1 & H2 & H3 & H4 & H5 & H6). unfold hdr_ok. simpl. rewrite Zlen_set_nth.
+  repeat (split; [assumption|]).
+  apply Forall_set_nth; [assumption|].
+  destruct (Forall_nth_error _ _ _ _ _ H6 Hold) as (_ & B1 & B2 & B3 & B4 & B5 & B6).
+  unfold var_ok. simpl. split; [apply nfc_ok; assumption | tauto].
+Qed.
+
+(* copy_att: the attribute comes from another header; its type must be legal in the destination format
+   (the check added by repair 549716e0) *)
+Lemma s_copy_write_ok : forall f v nm a self, hdr_ok (sf_hdr f) -> name_pre nm = NC_NOERR ->
+  valid_type (h_format (sf_hdr f)) (a_type a) = true -> 0 <= a_nelems a <= NC_MAX_INT ->
+  Zlen (a_data a) = a_nelems a * xlen_type (a_type a) ->
+  hdr_ok (shdr (s_copy_write nfc f v nm a self)).
+Proof.
+  intros f v nm a self Hok En Ht Hn Hd. unfold s_copy_write.
+  destruct (get_sa (sf_hdr f) v) as [l|] eqn:G; [|exact Hok].
+  destruct self; [exact Hok|].
+  destruct (get_sa_ok _ _ _ Hok G) as [Hl Hfa].
+  destruct (s_attr_put_ok (h_format (sf_hdr f)) (sf_indef f) l (nfc nm) (a_type a) (a_nelems a) (a_data a)
+              Hl Hfa (nfc_ok _ En) Ht Hn Hd) as [A B].
+  destruct (s_attr_put (sf_indef f) l (nfc nm) (a_type a) (a_nelems a) (a_data a)) as [l' rc]. simpl in *.
+  destruct (negb (rc =? NC_NOERR)); [exact Hok|]. simpl. eapply set_sa_ok; eauto.
+Qed.
+
+Lemma s_apply_begins_ok : forall fmt vs bl, Forall (var_ok fmt) vs ->
+  Forall (fun b => 0 <= b < 4294967296) bl -> Forall (var_ok fmt) (s_apply_begins vs bl).
+Proof.
+  induction vs as [|v vs IH]; intros bl Hv Hb; simpl; [constructor|].
+  inversion Hv; subst. destruct bl as [|b bl].
+  - constructor; [assumption|]. apply IH; [assumption | constructor].
+  - inversion Hb; subst. constructor; [|apply IH; assumption].
+    unfold var_ok in *. simpl. tauto.
+Qed.
+
+Lemma Zlen_s_apply_begins : forall vs bl, Zlen (s_apply_begins vs bl) = Zlen vs.
+Proof.
+  induction vs as [|v vs IH]; intro bl; simpl; [reflexivity|].
+  destruct bl; rewrite !Zlen_cons, IH; reflexivity.
+Qed.
+
+Lemma s_enddef_ok : forall f bl, hdr_ok (sf_hdr f) -> Forall (fun b => 0 <= b < 4294967296) bl ->
+  hdr_ok (shdr (s_enddef f bl)).
+Proof.
+  intros f bl Hok Hb. unfold s_enddef.
+  destruct (negb (sf_indef f)); [exact Hok|].
+  destruct (negb (check_vlens (sf_hdr f) =? NC_NOERR)); [exact Hok|].
+  destruct Hok as (Hf & Hn & H1 & H2 & H3 & H4 & H5 & H6). unfold hdr_ok. simpl.
+  rewrite Zlen_s_apply_begins. repeat (split; [assumption|]).
+  apply s_apply_begins_ok; assumption.
+Qed.
+
+End WellFormed.
